@@ -20,6 +20,10 @@ let option_map f = function
 | Some a -> Some (f a)
 | None -> None
 
+type ('a, 'b) sum =
+| Inl of 'a
+| Inr of 'b
+
 (** val fst : ('a1 * 'a2) -> 'a1 **)
 
 let fst = function
@@ -82,6 +86,15 @@ let rec sub n m =
 
 module Nat =
  struct
+  (** val sub : nat -> nat -> nat **)
+
+  let rec sub n m =
+    match n with
+    | O -> n
+    | S k -> (match m with
+              | O -> n
+              | S l -> sub k l)
+
   (** val eqb : nat -> nat -> bool **)
 
   let rec eqb n m =
@@ -106,6 +119,37 @@ module Nat =
 
   let ltb n m =
     leb (S n) m
+
+  (** val min : nat -> nat -> nat **)
+
+  let rec min n m =
+    match n with
+    | O -> O
+    | S n' -> (match m with
+               | O -> O
+               | S m' -> S (min n' m'))
+
+  (** val divmod : nat -> nat -> nat -> nat -> nat * nat **)
+
+  let rec divmod x y q u =
+    match x with
+    | O -> (q, u)
+    | S x' ->
+      (match u with
+       | O -> divmod x' y (S q) y
+       | S u' -> divmod x' y q u')
+
+  (** val div : nat -> nat -> nat **)
+
+  let div x y = match y with
+  | O -> y
+  | S y' -> fst (divmod x y' O y')
+
+  (** val modulo : nat -> nat -> nat **)
+
+  let modulo x = function
+  | O -> x
+  | S y' -> sub y' (snd (divmod x y' O y'))
  end
 
 (** val tl : 'a1 list -> 'a1 list **)
@@ -157,6 +201,13 @@ let rec removelast = function
 let rec rev = function
 | [] -> []
 | x :: l' -> app (rev l') (x :: [])
+
+(** val rev_append : 'a1 list -> 'a1 list -> 'a1 list **)
+
+let rec rev_append l l' =
+  match l with
+  | [] -> l'
+  | a :: l0 -> rev_append l0 (a :: l')
 
 (** val concat : 'a1 list list -> 'a1 list **)
 
@@ -2145,7 +2196,7 @@ let fuzzy_v2 co sc cs nm fwd is_bytes text pat withPos slabCap =
                                   (if withPos then Some (r :: []) else None)))
                              else let t0 = rev st.p2_T in
                                   let b = rev st.p2_B in
-                                  let h0 = rev st.p2_H0 in
+                                  let h1 = rev st.p2_H0 in
                                   let c0 = rev st.p2_C0 in
                                   let f = rev st.p2_F in
                                   bind (get f O) (fun f0n ->
@@ -2164,12 +2215,12 @@ let fuzzy_v2 co sc cs nm fwd is_bytes text pat withPos slabCap =
                                            firstn (Z.to_nat width)
                                              (skipn f0n l)
                                          in
-                                         if Nat.ltb (length h0)
+                                         if Nat.ltb (length h1)
                                               (Z.to_nat
                                                 (Z.add lastIdx (Zpos XH)))
                                          then Err OutOfRange
                                          else bind
-                                                (put_row blank Z0 (seg0 h0))
+                                                (put_row blank Z0 (seg0 h1))
                                                 (fun h ->
                                                 bind
                                                   (put_row blank Z0 (seg0 c0))
@@ -2183,7 +2234,7 @@ let fuzzy_v2 co sc cs nm fwd is_bytes text pat withPos slabCap =
                                                     (fun r ->
                                                     let (p1, maxPos) = r in
                                                     let (p3, maxScore) = p1 in
-                                                    let (h1, c1) = p3 in
+                                                    let (h2, c1) = p3 in
                                                     if Z.ltb maxPos Z0
                                                     then Err OutOfRange
                                                     else if withPos
@@ -2191,7 +2242,7 @@ let fuzzy_v2 co sc cs nm fwd is_bytes text pat withPos slabCap =
                                                                 (p4 (S
                                                                   (Z.to_nat
                                                                     maxPos))
-                                                                  h1 c1 f
+                                                                  h2 c1 f
                                                                   width f0 m
                                                                   minIdx
                                                                   (sub m (S
@@ -9020,6 +9071,1373 @@ let dispatch_history op a =
             then Some (vstrs (entries (as_str a)))
             else None
 
+(** val cRLF : str **)
+
+let cRLF =
+  (Zpos (XI (XO (XI XH)))) :: ((Zpos (XO (XI (XO XH)))) :: [])
+
+(** val prefixb : str -> str -> bool **)
+
+let rec prefixb p s =
+  match p with
+  | [] -> true
+  | x :: p0 ->
+    (match s with
+     | [] -> false
+     | y :: s0 -> (&&) (Z.eqb x y) (prefixb p0 s0))
+
+(** val infixb : str -> str -> bool **)
+
+let rec infixb p s =
+  (||) (prefixb p s) (match s with
+                      | [] -> false
+                      | _ :: t0 -> infixb p t0)
+
+(** val frev : str -> str **)
+
+let frev s =
+  rev_append s []
+
+(** val find_crlf : str -> nat option **)
+
+let rec find_crlf = function
+| [] -> None
+| c :: t0 ->
+  (match t0 with
+   | [] -> None
+   | d :: _ ->
+     if (&&) (Z.eqb c (Zpos (XI (XO (XI XH)))))
+          (Z.eqb d (Zpos (XO (XI (XO XH)))))
+     then Some O
+     else option_map (fun x -> S x) (find_crlf t0))
+
+(** val cut_line : str -> (str * str) option **)
+
+let cut_line s =
+  match find_crlf s with
+  | Some i -> Some ((firstn i s), (skipn (add i (S (S O))) s))
+  | None -> None
+
+(** val take_while0 : (z -> bool) -> str -> str **)
+
+let rec take_while0 p = function
+| [] -> []
+| c :: t0 -> if p c then c :: (take_while0 p t0) else []
+
+(** val split_on_aux : z -> str -> str -> str list **)
+
+let rec split_on_aux sep0 cur = function
+| [] -> (frev cur) :: []
+| c :: r ->
+  if Z.eqb c sep0
+  then (frev cur) :: (split_on_aux sep0 [] r)
+  else split_on_aux sep0 (c :: cur) r
+
+(** val split_on0 : z -> str -> str list **)
+
+let split_on0 sep0 s =
+  split_on_aux sep0 [] s
+
+(** val split_first : z -> str -> (str * str) option **)
+
+let rec split_first sep0 = function
+| [] -> None
+| c :: r ->
+  if Z.eqb c sep0
+  then Some ([], r)
+  else (match split_first sep0 r with
+        | Some p -> let (a, b) = p in Some ((c :: a), b)
+        | None -> None)
+
+(** val digit : z -> bool **)
+
+let digit c =
+  (&&) (Z.leb (Zpos (XO (XO (XO (XO (XI XH)))))) c)
+    (Z.leb c (Zpos (XI (XO (XO (XI (XI XH)))))))
+
+(** val digits_val : str -> z -> z option **)
+
+let rec digits_val s acc =
+  match s with
+  | [] -> Some acc
+  | c :: t0 ->
+    if digit c
+    then digits_val t0
+           (Z.add (Z.mul acc (Zpos (XO (XI (XO XH)))))
+             (Z.sub c (Zpos (XO (XO (XO (XO (XI XH))))))))
+    else None
+
+(** val iNT_MAX : z **)
+
+let iNT_MAX =
+  Zpos (XI (XI (XI (XI (XI (XI (XI (XI (XI (XI (XI (XI (XI (XI (XI (XI (XI
+    (XI (XI (XI (XI (XI (XI (XI (XI (XI (XI (XI (XI (XI (XI (XI (XI (XI (XI
+    (XI (XI (XI (XI (XI (XI (XI (XI (XI (XI (XI (XI (XI (XI (XI (XI (XI (XI
+    (XI (XI (XI (XI (XI (XI (XI (XI (XI
+    XH))))))))))))))))))))))))))))))))))))))))))))))))))))))))))))))
+
+(** val atoi : str -> z option **)
+
+let atoi s =
+  let chk = fun v ->
+    if (&&) (Z.leb (Z.sub (Z.opp iNT_MAX) (Zpos XH)) v) (Z.leb v iNT_MAX)
+    then Some v
+    else None
+  in
+  (match s with
+   | [] -> None
+   | c :: t0 ->
+     if (||) (Z.eqb c (Zpos (XI (XI (XO (XI (XO XH)))))))
+          (Z.eqb c (Zpos (XI (XO (XI (XI (XO XH)))))))
+     then (match t0 with
+           | [] -> None
+           | _ :: _ ->
+             (match digits_val t0 Z0 with
+              | Some v ->
+                chk
+                  (if Z.eqb c (Zpos (XI (XO (XI (XI (XO XH))))))
+                   then Z.opp v
+                   else v)
+              | None -> None))
+     else (match digits_val s Z0 with
+           | Some v -> chk v
+           | None -> None))
+
+(** val print_dec_aux : nat -> nat -> str -> str **)
+
+let rec print_dec_aux fuel n acc =
+  match fuel with
+  | O -> acc
+  | S f ->
+    let acc' =
+      (Z.add (Zpos (XO (XO (XO (XO (XI XH))))))
+        (Z.of_nat (Nat.modulo n (S (S (S (S (S (S (S (S (S (S O))))))))))))) :: acc
+    in
+    if Nat.ltb n (S (S (S (S (S (S (S (S (S (S O))))))))))
+    then acc'
+    else print_dec_aux f
+           (Nat.div n (S (S (S (S (S (S (S (S (S (S O))))))))))) acc'
+
+(** val print_dec : nat -> str **)
+
+let print_dec n =
+  print_dec_aux (S n) n []
+
+(** val ascii_space : z -> bool **)
+
+let ascii_space c =
+  (||)
+    ((||)
+      ((||)
+        ((||)
+          ((||) (Z.eqb c (Zpos (XI (XO (XO XH)))))
+            (Z.eqb c (Zpos (XO (XI (XO XH))))))
+          (Z.eqb c (Zpos (XI (XI (XO XH))))))
+        (Z.eqb c (Zpos (XO (XO (XI XH))))))
+      (Z.eqb c (Zpos (XI (XO (XI XH))))))
+    (Z.eqb c (Zpos (XO (XO (XO (XO (XO XH)))))))
+
+(** val uspace_seqs : str list **)
+
+let uspace_seqs =
+  ((Zpos (XO (XI (XO (XO (XO (XO (XI XH)))))))) :: ((Zpos (XI (XO (XI (XO (XO
+    (XO (XO XH)))))))) :: [])) :: (((Zpos (XO (XI (XO (XO (XO (XO (XI
+    XH)))))))) :: ((Zpos (XO (XO (XO (XO (XO (XI (XO
+    XH)))))))) :: [])) :: (((Zpos (XI (XO (XO (XO (XO (XI (XI
+    XH)))))))) :: ((Zpos (XO (XI (XO (XI (XI (XO (XO XH)))))))) :: ((Zpos (XO
+    (XO (XO (XO (XO (XO (XO XH)))))))) :: []))) :: (((Zpos (XO (XI (XO (XO
+    (XO (XI (XI XH)))))))) :: ((Zpos (XO (XO (XO (XO (XO (XO (XO
+    XH)))))))) :: ((Zpos (XO (XO (XO (XO (XO (XO (XO
+    XH)))))))) :: []))) :: (((Zpos (XO (XI (XO (XO (XO (XI (XI
+    XH)))))))) :: ((Zpos (XO (XO (XO (XO (XO (XO (XO XH)))))))) :: ((Zpos (XI
+    (XO (XO (XO (XO (XO (XO XH)))))))) :: []))) :: (((Zpos (XO (XI (XO (XO
+    (XO (XI (XI XH)))))))) :: ((Zpos (XO (XO (XO (XO (XO (XO (XO
+    XH)))))))) :: ((Zpos (XO (XI (XO (XO (XO (XO (XO
+    XH)))))))) :: []))) :: (((Zpos (XO (XI (XO (XO (XO (XI (XI
+    XH)))))))) :: ((Zpos (XO (XO (XO (XO (XO (XO (XO XH)))))))) :: ((Zpos (XI
+    (XI (XO (XO (XO (XO (XO XH)))))))) :: []))) :: (((Zpos (XO (XI (XO (XO
+    (XO (XI (XI XH)))))))) :: ((Zpos (XO (XO (XO (XO (XO (XO (XO
+    XH)))))))) :: ((Zpos (XO (XO (XI (XO (XO (XO (XO
+    XH)))))))) :: []))) :: (((Zpos (XO (XI (XO (XO (XO (XI (XI
+    XH)))))))) :: ((Zpos (XO (XO (XO (XO (XO (XO (XO XH)))))))) :: ((Zpos (XI
+    (XO (XI (XO (XO (XO (XO XH)))))))) :: []))) :: (((Zpos (XO (XI (XO (XO
+    (XO (XI (XI XH)))))))) :: ((Zpos (XO (XO (XO (XO (XO (XO (XO
+    XH)))))))) :: ((Zpos (XO (XI (XI (XO (XO (XO (XO
+    XH)))))))) :: []))) :: (((Zpos (XO (XI (XO (XO (XO (XI (XI
+    XH)))))))) :: ((Zpos (XO (XO (XO (XO (XO (XO (XO XH)))))))) :: ((Zpos (XI
+    (XI (XI (XO (XO (XO (XO XH)))))))) :: []))) :: (((Zpos (XO (XI (XO (XO
+    (XO (XI (XI XH)))))))) :: ((Zpos (XO (XO (XO (XO (XO (XO (XO
+    XH)))))))) :: ((Zpos (XO (XO (XO (XI (XO (XO (XO
+    XH)))))))) :: []))) :: (((Zpos (XO (XI (XO (XO (XO (XI (XI
+    XH)))))))) :: ((Zpos (XO (XO (XO (XO (XO (XO (XO XH)))))))) :: ((Zpos (XI
+    (XO (XO (XI (XO (XO (XO XH)))))))) :: []))) :: (((Zpos (XO (XI (XO (XO
+    (XO (XI (XI XH)))))))) :: ((Zpos (XO (XO (XO (XO (XO (XO (XO
+    XH)))))))) :: ((Zpos (XO (XI (XO (XI (XO (XO (XO
+    XH)))))))) :: []))) :: (((Zpos (XO (XI (XO (XO (XO (XI (XI
+    XH)))))))) :: ((Zpos (XO (XO (XO (XO (XO (XO (XO XH)))))))) :: ((Zpos (XO
+    (XO (XO (XI (XO (XI (XO XH)))))))) :: []))) :: (((Zpos (XO (XI (XO (XO
+    (XO (XI (XI XH)))))))) :: ((Zpos (XO (XO (XO (XO (XO (XO (XO
+    XH)))))))) :: ((Zpos (XI (XO (XO (XI (XO (XI (XO
+    XH)))))))) :: []))) :: (((Zpos (XO (XI (XO (XO (XO (XI (XI
+    XH)))))))) :: ((Zpos (XO (XO (XO (XO (XO (XO (XO XH)))))))) :: ((Zpos (XI
+    (XI (XI (XI (XO (XI (XO XH)))))))) :: []))) :: (((Zpos (XO (XI (XO (XO
+    (XO (XI (XI XH)))))))) :: ((Zpos (XI (XO (XO (XO (XO (XO (XO
+    XH)))))))) :: ((Zpos (XI (XI (XI (XI (XI (XO (XO
+    XH)))))))) :: []))) :: (((Zpos (XI (XI (XO (XO (XO (XI (XI
+    XH)))))))) :: ((Zpos (XO (XO (XO (XO (XO (XO (XO XH)))))))) :: ((Zpos (XO
+    (XO (XO (XO (XO (XO (XO XH)))))))) :: []))) :: []))))))))))))))))))
+
+(** val strip_any : str list -> str -> str option **)
+
+let rec strip_any seqs s =
+  match seqs with
+  | [] -> None
+  | q :: r -> if prefixb q s then Some (skipn (length q) s) else strip_any r s
+
+(** val trim_left_f : str list -> nat -> str -> str **)
+
+let rec trim_left_f seqs fuel s =
+  match fuel with
+  | O -> s
+  | S f ->
+    (match s with
+     | [] -> []
+     | c :: t0 ->
+       if ascii_space c
+       then trim_left_f seqs f t0
+       else (match strip_any seqs s with
+             | Some r -> trim_left_f seqs f r
+             | None -> s))
+
+(** val trim_left : str -> str **)
+
+let trim_left s =
+  trim_left_f uspace_seqs (length s) s
+
+(** val trim_right : str -> str **)
+
+let trim_right s =
+  frev (trim_left_f (map frev uspace_seqs) (length s) (frev s))
+
+(** val trim_space : str -> str **)
+
+let trim_space s =
+  trim_right (trim_left s)
+
+(** val is_crlf_char : z -> bool **)
+
+let is_crlf_char c =
+  (||) (Z.eqb c (Zpos (XI (XO (XI XH))))) (Z.eqb c (Zpos (XO (XI (XO XH)))))
+
+(** val trim_crlf : str -> str **)
+
+let trim_crlf s =
+  frev (drop_while is_crlf_char (frev (drop_while is_crlf_char s)))
+
+(** val lower_name : str -> str **)
+
+let rec lower_name = function
+| [] -> []
+| c :: t0 ->
+  (match t0 with
+   | [] ->
+     (if (&&) (Z.leb (Zpos (XI (XO (XO (XO (XO (XO XH))))))) c)
+           (Z.leb c (Zpos (XO (XI (XO (XI (XI (XO XH))))))))
+      then Z.add c (Zpos (XO (XO (XO (XO (XO XH))))))
+      else c) :: []
+   | d :: t2 ->
+     if (&&) (Z.eqb c (Zpos (XO (XO (XI (XO (XO (XO (XI XH)))))))))
+          (Z.eqb d (Zpos (XO (XO (XO (XO (XI (XI (XO XH)))))))))
+     then (Zpos (XI (XO (XO (XI (XO (XI XH))))))) :: (lower_name t2)
+     else (match t2 with
+           | [] ->
+             (if (&&) (Z.leb (Zpos (XI (XO (XO (XO (XO (XO XH))))))) c)
+                   (Z.leb c (Zpos (XO (XI (XO (XI (XI (XO XH))))))))
+              then Z.add c (Zpos (XO (XO (XO (XO (XO XH))))))
+              else c) :: (lower_name t0)
+           | e :: t3 ->
+             if (&&)
+                  ((&&)
+                    (Z.eqb c (Zpos (XO (XI (XO (XO (XO (XI (XI XH)))))))))
+                    (Z.eqb d (Zpos (XO (XO (XI (XO (XO (XO (XO XH))))))))))
+                  (Z.eqb e (Zpos (XO (XI (XO (XI (XO (XI (XO XH)))))))))
+             then (Zpos (XI (XI (XO (XI (XO (XI XH))))))) :: (lower_name t3)
+             else (if (&&) (Z.leb (Zpos (XI (XO (XO (XO (XO (XO XH))))))) c)
+                        (Z.leb c (Zpos (XO (XI (XO (XI (XI (XO XH))))))))
+                   then Z.add c (Zpos (XO (XO (XO (XO (XO XH))))))
+                   else c) :: (lower_name t0)))
+
+(** val s_CONTENT_LENGTH : str **)
+
+let s_CONTENT_LENGTH =
+  (Zpos (XI (XI (XO (XO (XO (XI XH))))))) :: ((Zpos (XI (XI (XI (XI (XO (XI
+    XH))))))) :: ((Zpos (XO (XI (XI (XI (XO (XI XH))))))) :: ((Zpos (XO (XO
+    (XI (XO (XI (XI XH))))))) :: ((Zpos (XI (XO (XI (XO (XO (XI
+    XH))))))) :: ((Zpos (XO (XI (XI (XI (XO (XI XH))))))) :: ((Zpos (XO (XO
+    (XI (XO (XI (XI XH))))))) :: ((Zpos (XI (XO (XI (XI (XO
+    XH)))))) :: ((Zpos (XO (XO (XI (XI (XO (XI XH))))))) :: ((Zpos (XI (XO
+    (XI (XO (XO (XI XH))))))) :: ((Zpos (XO (XI (XI (XI (XO (XI
+    XH))))))) :: ((Zpos (XI (XI (XI (XO (XO (XI XH))))))) :: ((Zpos (XO (XO
+    (XI (XO (XI (XI XH))))))) :: ((Zpos (XO (XO (XO (XI (XO (XI
+    XH))))))) :: [])))))))))))))
+
+(** val s_X_API_KEY : str **)
+
+let s_X_API_KEY =
+  (Zpos (XO (XO (XO (XI (XI (XI XH))))))) :: ((Zpos (XI (XO (XI (XI (XO
+    XH)))))) :: ((Zpos (XI (XO (XO (XO (XO (XI XH))))))) :: ((Zpos (XO (XO
+    (XO (XO (XI (XI XH))))))) :: ((Zpos (XI (XO (XO (XI (XO (XI
+    XH))))))) :: ((Zpos (XI (XO (XI (XI (XO XH)))))) :: ((Zpos (XI (XI (XO
+    (XI (XO (XI XH))))))) :: ((Zpos (XI (XO (XI (XO (XO (XI
+    XH))))))) :: ((Zpos (XI (XO (XO (XI (XI (XI XH))))))) :: []))))))))
+
+(** val mAX_CONTENT_LENGTH : z **)
+
+let mAX_CONTENT_LENGTH =
+  Zpos (XO (XO (XO (XO (XO (XO (XO (XO (XO (XO (XO (XO (XO (XO (XO (XO (XO
+    (XO (XO (XO XH))))))))))))))))))))
+
+type hstate = { h_clen : z; h_key : str }
+
+(** val h0 : hstate **)
+
+let h0 =
+  { h_clen = Z0; h_key = [] }
+
+(** val header_line : hstate -> str -> hstate option **)
+
+let header_line h text =
+  match split_first (Zpos (XO (XI (XO (XI (XI XH)))))) text with
+  | Some p ->
+    let (n, v) = p in
+    let ln = lower_name n in
+    if str_eqb ln s_CONTENT_LENGTH
+    then (match atoi (trim_space v) with
+          | Some z0 ->
+            if (&&) (Z.leb (Zpos XH) z0) (Z.leb z0 mAX_CONTENT_LENGTH)
+            then Some { h_clen = z0; h_key = h.h_key }
+            else None
+          | None -> None)
+    else if str_eqb ln s_X_API_KEY
+         then Some { h_clen = h.h_clen; h_key = (trim_space v) }
+         else Some h
+  | None -> Some h
+
+(** val s_POST : str **)
+
+let s_POST =
+  (Zpos (XO (XO (XO (XO (XI (XO XH))))))) :: ((Zpos (XI (XI (XI (XI (XO (XO
+    XH))))))) :: ((Zpos (XI (XI (XO (XO (XI (XO XH))))))) :: ((Zpos (XO (XO
+    (XI (XO (XI (XO XH))))))) :: ((Zpos (XO (XO (XO (XO (XO
+    XH)))))) :: ((Zpos (XI (XI (XI (XI (XO XH)))))) :: ((Zpos (XO (XO (XO (XO
+    (XO XH)))))) :: ((Zpos (XO (XO (XO (XI (XO (XO XH))))))) :: ((Zpos (XO
+    (XO (XI (XO (XI (XO XH))))))) :: ((Zpos (XO (XO (XI (XO (XI (XO
+    XH))))))) :: ((Zpos (XO (XO (XO (XO (XI (XO XH))))))) :: []))))))))))
+
+(** val s_GET : str **)
+
+let s_GET =
+  (Zpos (XI (XI (XI (XO (XO (XO XH))))))) :: ((Zpos (XI (XO (XI (XO (XO (XO
+    XH))))))) :: ((Zpos (XO (XO (XI (XO (XI (XO XH))))))) :: ((Zpos (XO (XO
+    (XO (XO (XO XH)))))) :: ((Zpos (XI (XI (XI (XI (XO XH)))))) :: []))))
+
+(** val s_HTTP : str **)
+
+let s_HTTP =
+  (Zpos (XO (XO (XO (XO (XO XH)))))) :: ((Zpos (XO (XO (XO (XI (XO (XO
+    XH))))))) :: ((Zpos (XO (XO (XI (XO (XI (XO XH))))))) :: ((Zpos (XO (XO
+    (XI (XO (XI (XO XH))))))) :: ((Zpos (XO (XO (XO (XO (XI (XO
+    XH))))))) :: []))))
+
+(** val qchar : z -> bool **)
+
+let qchar c =
+  (||)
+    ((||)
+      ((||)
+        ((&&) (Z.leb (Zpos (XI (XO (XO (XO (XO (XI XH))))))) c)
+          (Z.leb c (Zpos (XO (XI (XO (XI (XI (XI XH))))))))) (digit c))
+      (Z.eqb c (Zpos (XI (XO (XI (XI (XI XH))))))))
+    (Z.eqb c (Zpos (XO (XI (XI (XO (XO XH)))))))
+
+(** val get_match : str -> str option **)
+
+let get_match text =
+  if prefixb s_GET text
+  then let r = skipn (S (S (S (S (S O))))) text in
+       if prefixb s_HTTP r
+       then Some []
+       else (match r with
+             | [] -> None
+             | c :: q ->
+               if Z.eqb c (Zpos (XI (XI (XI (XI (XI XH))))))
+               then let p = take_while0 qchar q in
+                    if (&&) (nonemptyb p)
+                         (prefixb s_HTTP (skipn (length p) q))
+                    then Some p
+                    else None
+               else None)
+  else None
+
+(** val s_LIMIT : str **)
+
+let s_LIMIT =
+  (Zpos (XO (XO (XI (XI (XO (XI XH))))))) :: ((Zpos (XI (XO (XO (XI (XO (XI
+    XH))))))) :: ((Zpos (XI (XO (XI (XI (XO (XI XH))))))) :: ((Zpos (XI (XO
+    (XO (XI (XO (XI XH))))))) :: ((Zpos (XO (XO (XI (XO (XI (XI
+    XH))))))) :: []))))
+
+(** val s_OFFSET : str **)
+
+let s_OFFSET =
+  (Zpos (XI (XI (XI (XI (XO (XI XH))))))) :: ((Zpos (XO (XI (XI (XO (XO (XI
+    XH))))))) :: ((Zpos (XO (XI (XI (XO (XO (XI XH))))))) :: ((Zpos (XI (XI
+    (XO (XO (XI (XI XH))))))) :: ((Zpos (XI (XO (XI (XO (XO (XI
+    XH))))))) :: ((Zpos (XO (XO (XI (XO (XI (XI XH))))))) :: [])))))
+
+(** val get_params : str -> z * z **)
+
+let get_params q =
+  fold_left (fun acc pair ->
+    match split_first (Zpos (XI (XO (XI (XI (XI XH)))))) pair with
+    | Some p ->
+      let (k, v) = p in
+      if str_eqb k s_LIMIT
+      then (match atoi v with
+            | Some z0 -> (z0, (snd acc))
+            | None -> acc)
+      else if str_eqb k s_OFFSET
+           then (match atoi v with
+                 | Some z0 -> ((fst acc), z0)
+                 | None -> acc)
+           else acc
+    | None -> acc) (split_on0 (Zpos (XO (XI (XI (XO (XO XH)))))) q) ((Zpos
+    (XO (XO (XI (XO (XO (XI XH))))))), Z0)
+
+type verdict =
+| VAccept
+| VEmpty
+| VError of str
+
+(** val spec_headers : nat -> str -> hstate -> (hstate * str) option **)
+
+let rec spec_headers fuel s h =
+  match fuel with
+  | O -> None
+  | S f ->
+    (match cut_line s with
+     | Some p ->
+       let (l, r) = p in
+       (match l with
+        | [] -> if Z.eqb h.h_clen Z0 then None else Some (h, r)
+        | _ :: _ ->
+          (match header_line h (app l cRLF) with
+           | Some h' -> spec_headers f r h'
+           | None -> None))
+     | None -> None)
+
+(** val key_ok : str -> str -> bool **)
+
+let key_ok key0 provided =
+  match key0 with
+  | [] -> true
+  | _ :: _ -> str_eqb provided key0
+
+(** val spec_body : str -> str -> str option **)
+
+let spec_body key0 s =
+  match cut_line s with
+  | Some p ->
+    let (l0, r0) = p in
+    if prefixb s_POST l0
+    then (match spec_headers (length r0) r0 h0 with
+          | Some p0 ->
+            let (h, rest) = p0 in
+            if (&&) (key_ok key0 h.h_key)
+                 (Z.leb h.h_clen (Z.of_nat (length rest)))
+            then Some (trim_crlf (firstn (Z.to_nat h.h_clen) rest))
+            else None
+          | None -> None)
+    else None
+  | None -> None
+
+(** val s_HTTP11 : str **)
+
+let s_HTTP11 =
+  (Zpos (XO (XO (XO (XI (XO (XO XH))))))) :: ((Zpos (XO (XO (XI (XO (XI (XO
+    XH))))))) :: ((Zpos (XO (XO (XI (XO (XI (XO XH))))))) :: ((Zpos (XO (XO
+    (XO (XO (XI (XO XH))))))) :: ((Zpos (XI (XI (XI (XI (XO
+    XH)))))) :: ((Zpos (XI (XO (XO (XO (XI XH)))))) :: ((Zpos (XO (XI (XI (XI
+    (XO XH)))))) :: ((Zpos (XI (XO (XO (XO (XI XH)))))) :: ((Zpos (XO (XO (XO
+    (XO (XO XH)))))) :: []))))))))
+
+(** val s_CLEN_HDR : str **)
+
+let s_CLEN_HDR =
+  (Zpos (XI (XI (XO (XO (XO (XO XH))))))) :: ((Zpos (XI (XI (XI (XI (XO (XI
+    XH))))))) :: ((Zpos (XO (XI (XI (XI (XO (XI XH))))))) :: ((Zpos (XO (XO
+    (XI (XO (XI (XI XH))))))) :: ((Zpos (XI (XO (XI (XO (XO (XI
+    XH))))))) :: ((Zpos (XO (XI (XI (XI (XO (XI XH))))))) :: ((Zpos (XO (XO
+    (XI (XO (XI (XI XH))))))) :: ((Zpos (XI (XO (XI (XI (XO
+    XH)))))) :: ((Zpos (XO (XO (XI (XI (XO (XO XH))))))) :: ((Zpos (XI (XO
+    (XI (XO (XO (XI XH))))))) :: ((Zpos (XO (XI (XI (XI (XO (XI
+    XH))))))) :: ((Zpos (XI (XI (XI (XO (XO (XI XH))))))) :: ((Zpos (XO (XO
+    (XI (XO (XI (XI XH))))))) :: ((Zpos (XO (XO (XO (XI (XO (XI
+    XH))))))) :: ((Zpos (XO (XI (XO (XI (XI XH)))))) :: ((Zpos (XO (XO (XO
+    (XO (XO XH)))))) :: [])))))))))))))))
+
+(** val reason : z -> str **)
+
+let reason code =
+  if Z.eqb code (Zpos (XO (XO (XO (XI (XO (XO (XI XH))))))))
+  then (Zpos (XI (XI (XI (XI (XO (XO XH))))))) :: ((Zpos (XI (XI (XO (XI (XO
+         (XO XH))))))) :: [])
+  else if Z.eqb code (Zpos (XO (XO (XO (XO (XI (XO (XO (XI XH)))))))))
+       then (Zpos (XO (XI (XO (XO (XO (XO XH))))))) :: ((Zpos (XI (XO (XO (XO
+              (XO (XI XH))))))) :: ((Zpos (XO (XO (XI (XO (XO (XI
+              XH))))))) :: ((Zpos (XO (XO (XO (XO (XO XH)))))) :: ((Zpos (XO
+              (XI (XO (XO (XI (XO XH))))))) :: ((Zpos (XI (XO (XI (XO (XO (XI
+              XH))))))) :: ((Zpos (XI (XO (XO (XO (XI (XI XH))))))) :: ((Zpos
+              (XI (XO (XI (XO (XI (XI XH))))))) :: ((Zpos (XI (XO (XI (XO (XO
+              (XI XH))))))) :: ((Zpos (XI (XI (XO (XO (XI (XI
+              XH))))))) :: ((Zpos (XO (XO (XI (XO (XI (XI
+              XH))))))) :: []))))))))))
+       else if Z.eqb code (Zpos (XI (XO (XO (XO (XI (XO (XO (XI XH)))))))))
+            then (Zpos (XI (XO (XI (XO (XI (XO XH))))))) :: ((Zpos (XO (XI
+                   (XI (XI (XO (XI XH))))))) :: ((Zpos (XI (XO (XO (XO (XO
+                   (XI XH))))))) :: ((Zpos (XI (XO (XI (XO (XI (XI
+                   XH))))))) :: ((Zpos (XO (XO (XI (XO (XI (XI
+                   XH))))))) :: ((Zpos (XO (XO (XO (XI (XO (XI
+                   XH))))))) :: ((Zpos (XI (XI (XI (XI (XO (XI
+                   XH))))))) :: ((Zpos (XO (XI (XO (XO (XI (XI
+                   XH))))))) :: ((Zpos (XI (XO (XO (XI (XO (XI
+                   XH))))))) :: ((Zpos (XO (XI (XO (XI (XI (XI
+                   XH))))))) :: ((Zpos (XI (XO (XI (XO (XO (XI
+                   XH))))))) :: ((Zpos (XO (XO (XI (XO (XO (XI
+                   XH))))))) :: [])))))))))))
+            else (Zpos (XI (XI (XO (XO (XI (XO XH))))))) :: ((Zpos (XI (XO
+                   (XI (XO (XO (XI XH))))))) :: ((Zpos (XO (XI (XO (XO (XI
+                   (XI XH))))))) :: ((Zpos (XO (XI (XI (XO (XI (XI
+                   XH))))))) :: ((Zpos (XI (XO (XO (XI (XO (XI
+                   XH))))))) :: ((Zpos (XI (XI (XO (XO (XO (XI
+                   XH))))))) :: ((Zpos (XI (XO (XI (XO (XO (XI
+                   XH))))))) :: ((Zpos (XO (XO (XO (XO (XO XH)))))) :: ((Zpos
+                   (XI (XO (XI (XO (XI (XO XH))))))) :: ((Zpos (XO (XI (XI
+                   (XI (XO (XI XH))))))) :: ((Zpos (XI (XO (XO (XO (XO (XI
+                   XH))))))) :: ((Zpos (XO (XI (XI (XO (XI (XI
+                   XH))))))) :: ((Zpos (XI (XO (XO (XO (XO (XI
+                   XH))))))) :: ((Zpos (XI (XO (XO (XI (XO (XI
+                   XH))))))) :: ((Zpos (XO (XO (XI (XI (XO (XI
+                   XH))))))) :: ((Zpos (XI (XO (XO (XO (XO (XI
+                   XH))))))) :: ((Zpos (XO (XI (XO (XO (XO (XI
+                   XH))))))) :: ((Zpos (XO (XO (XI (XI (XO (XI
+                   XH))))))) :: ((Zpos (XI (XO (XI (XO (XO (XI
+                   XH))))))) :: []))))))))))))))))))
+
+(** val status_line_ok : str -> z option **)
+
+let status_line_ok l =
+  if prefixb s_HTTP11 l
+  then let code =
+         firstn (S (S (S O))) (skipn (S (S (S (S (S (S (S (S (S O))))))))) l)
+       in
+       (match digits_val code Z0 with
+        | Some z0 ->
+          if (&&)
+               ((&&)
+                 ((&&) (Nat.eqb (length code) (S (S (S O))))
+                   (prefixb ((Zpos (XO (XO (XO (XO (XO XH)))))) :: [])
+                     (skipn (S (S (S (S (S (S (S (S (S (S (S (S O))))))))))))
+                       l)))
+                 (str_eqb
+                   (skipn (S (S (S (S (S (S (S (S (S (S (S (S (S
+                     O))))))))))))) l) (reason z0)))
+               ((||)
+                 ((||)
+                   ((||)
+                     (Z.eqb z0 (Zpos (XO (XO (XO (XI (XO (XO (XI XH)))))))))
+                     (Z.eqb z0 (Zpos (XO (XO (XO (XO (XI (XO (XO (XI
+                       XH)))))))))))
+                   (Z.eqb z0 (Zpos (XI (XO (XO (XO (XI (XO (XO (XI
+                     XH)))))))))))
+                 (Z.eqb z0 (Zpos (XI (XI (XI (XO (XI (XI (XI (XI XH)))))))))))
+          then Some z0
+          else None
+        | None -> None)
+  else None
+
+(** val resp_headers :
+    nat -> str -> str option -> (str option * str) option **)
+
+let rec resp_headers fuel s cl =
+  match fuel with
+  | O -> None
+  | S f ->
+    (match cut_line s with
+     | Some p ->
+       let (l, r) = p in
+       (match l with
+        | [] -> Some (cl, r)
+        | _ :: _ ->
+          if prefixb s_CLEN_HDR l
+          then (match cl with
+                | Some _ -> None
+                | None ->
+                  resp_headers f r (Some
+                    (skipn (S (S (S (S (S (S (S (S (S (S (S (S (S (S (S (S
+                      O)))))))))))))))) l)))
+          else (match split_first (Zpos (XO (XI (XO (XI (XI XH)))))) l with
+                | Some p0 ->
+                  let (s0, _) = p0 in
+                  (match s0 with
+                   | [] -> None
+                   | _ :: _ -> resp_headers f r cl)
+                | None -> None))
+     | None -> None)
+
+(** val wf_response : str -> z option **)
+
+let wf_response r =
+  match cut_line r with
+  | Some p ->
+    let (sl, rest) = p in
+    (match status_line_ok sl with
+     | Some code ->
+       (match resp_headers (length rest) rest None with
+        | Some p0 ->
+          let (o, body) = p0 in
+          (match o with
+           | Some v ->
+             if str_eqb v (print_dec (length body)) then Some code else None
+           | None -> (match body with
+                      | [] -> Some code
+                      | _ :: _ -> None))
+        | None -> None)
+     | None -> None)
+  | None -> None
+
+(** val s_LOCALHOST : str **)
+
+let s_LOCALHOST =
+  (Zpos (XO (XO (XI (XI (XO (XI XH))))))) :: ((Zpos (XI (XI (XI (XI (XO (XI
+    XH))))))) :: ((Zpos (XI (XI (XO (XO (XO (XI XH))))))) :: ((Zpos (XI (XO
+    (XO (XO (XO (XI XH))))))) :: ((Zpos (XO (XO (XI (XI (XO (XI
+    XH))))))) :: ((Zpos (XO (XO (XO (XI (XO (XI XH))))))) :: ((Zpos (XI (XI
+    (XI (XI (XO (XI XH))))))) :: ((Zpos (XI (XI (XO (XO (XI (XI
+    XH))))))) :: ((Zpos (XO (XO (XI (XO (XI (XI XH))))))) :: []))))))))
+
+(** val s_LOOPBACK : str **)
+
+let s_LOOPBACK =
+  (Zpos (XI (XO (XO (XO (XI XH)))))) :: ((Zpos (XO (XI (XO (XO (XI
+    XH)))))) :: ((Zpos (XI (XI (XI (XO (XI XH)))))) :: ((Zpos (XO (XI (XI (XI
+    (XO XH)))))) :: ((Zpos (XO (XO (XO (XO (XI XH)))))) :: ((Zpos (XO (XI (XI
+    (XI (XO XH)))))) :: ((Zpos (XO (XO (XO (XO (XI XH)))))) :: ((Zpos (XO (XI
+    (XI (XI (XO XH)))))) :: ((Zpos (XI (XO (XO (XO (XI XH)))))) :: []))))))))
+
+(** val is_local : str -> bool **)
+
+let is_local host =
+  (||) (str_eqb host s_LOCALHOST) (str_eqb host s_LOOPBACK)
+
+(** val sTART_BUF : z **)
+
+let sTART_BUF =
+  Zpos (XO (XO (XO (XO (XO (XO (XO (XO (XO (XO (XO (XO XH))))))))))))
+
+(** val mAX_TOKEN : z **)
+
+let mAX_TOKEN =
+  Zpos (XO (XO (XO (XO (XO (XO (XO (XO (XO (XO (XO (XO (XO (XO (XO (XO
+    XH))))))))))))))))
+
+type scanner = { sc_cap : z; sc_start : z; sc_data : str; sc_rest : str list;
+                 sc_eof : bool }
+
+(** val sc_init : str list -> scanner **)
+
+let sc_init chunks =
+  { sc_cap = Z0; sc_start = Z0; sc_data = []; sc_rest = chunks; sc_eof =
+    false }
+
+type tokres =
+| Tok of nat * str
+| Final of str
+| NoTok
+
+(** val split_fn : str -> bool -> nat -> z -> tokres **)
+
+let split_fn data at_eof blen clen =
+  match find_crlf data with
+  | Some i -> Tok ((add i (S (S O))), (firstn (add i (S (S O))) data))
+  | None ->
+    if (||) at_eof (Z.leb clen (Z.of_nat (add blen (length data))))
+    then Final data
+    else NoTok
+
+type sres =
+| STok of str * scanner
+| SFinal of str
+| SStop
+| SMore of scanner
+
+(** val do_read : z -> z -> str -> str list -> sres **)
+
+let do_read cap start data rest = match rest with
+| [] ->
+  SMore { sc_cap = cap; sc_start = start; sc_data = data; sc_rest = [];
+    sc_eof = true }
+| c :: r ->
+  let n =
+    Z.min (Z.of_nat (length c))
+      (Z.sub cap (Z.add start (Z.of_nat (length data))))
+  in
+  if Z.leb n Z0
+  then (match c with
+        | [] ->
+          SMore { sc_cap = cap; sc_start = start; sc_data = data; sc_rest =
+            r; sc_eof = false }
+        | _ :: _ ->
+          SMore { sc_cap = cap; sc_start = start; sc_data = data; sc_rest =
+            rest; sc_eof = true })
+  else if Z.eqb n (Z.of_nat (length c))
+       then SMore { sc_cap = cap; sc_start = start; sc_data = (app data c);
+              sc_rest = r; sc_eof = false }
+       else SMore { sc_cap = cap; sc_start = start; sc_data =
+              (app data (firstn (Z.to_nat n) c)); sc_rest =
+              ((skipn (Z.to_nat n) c) :: r); sc_eof = false }
+
+(** val refill : scanner -> sres **)
+
+let refill s =
+  if s.sc_eof
+  then SStop
+  else let len = Z.of_nat (length s.sc_data) in
+       let cap = s.sc_cap in
+       let start =
+         if (&&) (Z.ltb Z0 s.sc_start)
+              ((||) (Z.eqb (Z.add s.sc_start len) cap)
+                (Z.ltb (Z.div cap (Zpos (XO XH))) s.sc_start))
+         then Z0
+         else s.sc_start
+       in
+       if Z.eqb (Z.add start len) cap
+       then if Z.leb mAX_TOKEN cap
+            then SStop
+            else let cap' =
+                   Z.min
+                     (if Z.eqb cap Z0
+                      then sTART_BUF
+                      else Z.mul cap (Zpos (XO XH))) mAX_TOKEN
+                 in
+                 do_read cap' Z0 s.sc_data s.sc_rest
+       else do_read cap start s.sc_data s.sc_rest
+
+(** val scan_step : scanner -> nat -> z -> sres **)
+
+let scan_step s blen clen =
+  if (||) (nonemptyb s.sc_data) s.sc_eof
+  then (match split_fn s.sc_data s.sc_eof blen clen with
+        | Tok (adv, t0) ->
+          STok (t0, { sc_cap = s.sc_cap; sc_start =
+            (Z.add s.sc_start (Z.of_nat adv)); sc_data =
+            (skipn adv s.sc_data); sc_rest = s.sc_rest; sc_eof = s.sc_eof })
+        | Final t0 -> SFinal t0
+        | NoTok -> refill s)
+  else refill s
+
+type pstate = { p_section : nat; p_get : str option; p_h : hstate;
+                p_body : str }
+
+(** val p_init : pstate **)
+
+let p_init =
+  { p_section = O; p_get = None; p_h = h0; p_body = [] }
+
+(** val m_INVALID_METHOD : str **)
+
+let m_INVALID_METHOD =
+  (Zpos (XI (XO (XO (XI (XO (XI XH))))))) :: ((Zpos (XO (XI (XI (XI (XO (XI
+    XH))))))) :: ((Zpos (XO (XI (XI (XO (XI (XI XH))))))) :: ((Zpos (XI (XO
+    (XO (XO (XO (XI XH))))))) :: ((Zpos (XO (XO (XI (XI (XO (XI
+    XH))))))) :: ((Zpos (XI (XO (XO (XI (XO (XI XH))))))) :: ((Zpos (XO (XO
+    (XI (XO (XO (XI XH))))))) :: ((Zpos (XO (XO (XO (XO (XO
+    XH)))))) :: ((Zpos (XO (XI (XO (XO (XI (XI XH))))))) :: ((Zpos (XI (XO
+    (XI (XO (XO (XI XH))))))) :: ((Zpos (XI (XO (XO (XO (XI (XI
+    XH))))))) :: ((Zpos (XI (XO (XI (XO (XI (XI XH))))))) :: ((Zpos (XI (XO
+    (XI (XO (XO (XI XH))))))) :: ((Zpos (XI (XI (XO (XO (XI (XI
+    XH))))))) :: ((Zpos (XO (XO (XI (XO (XI (XI XH))))))) :: ((Zpos (XO (XO
+    (XO (XO (XO XH)))))) :: ((Zpos (XI (XO (XI (XI (XO (XI
+    XH))))))) :: ((Zpos (XI (XO (XI (XO (XO (XI XH))))))) :: ((Zpos (XO (XO
+    (XI (XO (XI (XI XH))))))) :: ((Zpos (XO (XO (XO (XI (XO (XI
+    XH))))))) :: ((Zpos (XI (XI (XI (XI (XO (XI XH))))))) :: ((Zpos (XO (XO
+    (XI (XO (XO (XI XH))))))) :: [])))))))))))))))))))))
+
+(** val m_CL_MISSING : str **)
+
+let m_CL_MISSING =
+  (Zpos (XI (XI (XO (XO (XO (XI XH))))))) :: ((Zpos (XI (XI (XI (XI (XO (XI
+    XH))))))) :: ((Zpos (XO (XI (XI (XI (XO (XI XH))))))) :: ((Zpos (XO (XO
+    (XI (XO (XI (XI XH))))))) :: ((Zpos (XI (XO (XI (XO (XO (XI
+    XH))))))) :: ((Zpos (XO (XI (XI (XI (XO (XI XH))))))) :: ((Zpos (XO (XO
+    (XI (XO (XI (XI XH))))))) :: ((Zpos (XI (XO (XI (XI (XO
+    XH)))))) :: ((Zpos (XO (XO (XI (XI (XO (XI XH))))))) :: ((Zpos (XI (XO
+    (XI (XO (XO (XI XH))))))) :: ((Zpos (XO (XI (XI (XI (XO (XI
+    XH))))))) :: ((Zpos (XI (XI (XI (XO (XO (XI XH))))))) :: ((Zpos (XO (XO
+    (XI (XO (XI (XI XH))))))) :: ((Zpos (XO (XO (XO (XI (XO (XI
+    XH))))))) :: ((Zpos (XO (XO (XO (XO (XO XH)))))) :: ((Zpos (XO (XO (XO
+    (XI (XO (XI XH))))))) :: ((Zpos (XI (XO (XI (XO (XO (XI
+    XH))))))) :: ((Zpos (XI (XO (XO (XO (XO (XI XH))))))) :: ((Zpos (XO (XO
+    (XI (XO (XO (XI XH))))))) :: ((Zpos (XI (XO (XI (XO (XO (XI
+    XH))))))) :: ((Zpos (XO (XI (XO (XO (XI (XI XH))))))) :: ((Zpos (XO (XO
+    (XO (XO (XO XH)))))) :: ((Zpos (XI (XO (XI (XI (XO (XI
+    XH))))))) :: ((Zpos (XI (XO (XO (XI (XO (XI XH))))))) :: ((Zpos (XI (XI
+    (XO (XO (XI (XI XH))))))) :: ((Zpos (XI (XI (XO (XO (XI (XI
+    XH))))))) :: ((Zpos (XI (XO (XO (XI (XO (XI XH))))))) :: ((Zpos (XO (XI
+    (XI (XI (XO (XI XH))))))) :: ((Zpos (XI (XI (XI (XO (XO (XI
+    XH))))))) :: []))))))))))))))))))))))))))))
+
+(** val m_INVALID_CL : str **)
+
+let m_INVALID_CL =
+  (Zpos (XI (XO (XO (XI (XO (XI XH))))))) :: ((Zpos (XO (XI (XI (XI (XO (XI
+    XH))))))) :: ((Zpos (XO (XI (XI (XO (XI (XI XH))))))) :: ((Zpos (XI (XO
+    (XO (XO (XO (XI XH))))))) :: ((Zpos (XO (XO (XI (XI (XO (XI
+    XH))))))) :: ((Zpos (XI (XO (XO (XI (XO (XI XH))))))) :: ((Zpos (XO (XO
+    (XI (XO (XO (XI XH))))))) :: ((Zpos (XO (XO (XO (XO (XO
+    XH)))))) :: ((Zpos (XI (XI (XO (XO (XO (XI XH))))))) :: ((Zpos (XI (XI
+    (XI (XI (XO (XI XH))))))) :: ((Zpos (XO (XI (XI (XI (XO (XI
+    XH))))))) :: ((Zpos (XO (XO (XI (XO (XI (XI XH))))))) :: ((Zpos (XI (XO
+    (XI (XO (XO (XI XH))))))) :: ((Zpos (XO (XI (XI (XI (XO (XI
+    XH))))))) :: ((Zpos (XO (XO (XI (XO (XI (XI XH))))))) :: ((Zpos (XO (XO
+    (XO (XO (XO XH)))))) :: ((Zpos (XO (XO (XI (XI (XO (XI
+    XH))))))) :: ((Zpos (XI (XO (XI (XO (XO (XI XH))))))) :: ((Zpos (XO (XI
+    (XI (XI (XO (XI XH))))))) :: ((Zpos (XI (XI (XI (XO (XO (XI
+    XH))))))) :: ((Zpos (XO (XO (XI (XO (XI (XI XH))))))) :: ((Zpos (XO (XO
+    (XO (XI (XO (XI XH))))))) :: [])))))))))))))))))))))
+
+(** val m_INVALID_KEY : str **)
+
+let m_INVALID_KEY =
+  (Zpos (XI (XO (XO (XI (XO (XI XH))))))) :: ((Zpos (XO (XI (XI (XI (XO (XI
+    XH))))))) :: ((Zpos (XO (XI (XI (XO (XI (XI XH))))))) :: ((Zpos (XI (XO
+    (XO (XO (XO (XI XH))))))) :: ((Zpos (XO (XO (XI (XI (XO (XI
+    XH))))))) :: ((Zpos (XI (XO (XO (XI (XO (XI XH))))))) :: ((Zpos (XO (XO
+    (XI (XO (XO (XI XH))))))) :: ((Zpos (XO (XO (XO (XO (XO
+    XH)))))) :: ((Zpos (XI (XO (XO (XO (XO (XI XH))))))) :: ((Zpos (XO (XO
+    (XO (XO (XI (XI XH))))))) :: ((Zpos (XI (XO (XO (XI (XO (XI
+    XH))))))) :: ((Zpos (XO (XO (XO (XO (XO XH)))))) :: ((Zpos (XI (XI (XO
+    (XI (XO (XI XH))))))) :: ((Zpos (XI (XO (XI (XO (XO (XI
+    XH))))))) :: ((Zpos (XI (XO (XO (XI (XI (XI XH))))))) :: []))))))))))))))
+
+(** val m_INCOMPLETE : str **)
+
+let m_INCOMPLETE =
+  (Zpos (XI (XO (XO (XI (XO (XI XH))))))) :: ((Zpos (XO (XI (XI (XI (XO (XI
+    XH))))))) :: ((Zpos (XI (XI (XO (XO (XO (XI XH))))))) :: ((Zpos (XI (XI
+    (XI (XI (XO (XI XH))))))) :: ((Zpos (XI (XO (XI (XI (XO (XI
+    XH))))))) :: ((Zpos (XO (XO (XO (XO (XI (XI XH))))))) :: ((Zpos (XO (XO
+    (XI (XI (XO (XI XH))))))) :: ((Zpos (XI (XO (XI (XO (XO (XI
+    XH))))))) :: ((Zpos (XO (XO (XI (XO (XI (XI XH))))))) :: ((Zpos (XI (XO
+    (XI (XO (XO (XI XH))))))) :: ((Zpos (XO (XO (XO (XO (XO
+    XH)))))) :: ((Zpos (XO (XI (XO (XO (XI (XI XH))))))) :: ((Zpos (XI (XO
+    (XI (XO (XO (XI XH))))))) :: ((Zpos (XI (XO (XO (XO (XI (XI
+    XH))))))) :: ((Zpos (XI (XO (XI (XO (XI (XI XH))))))) :: ((Zpos (XI (XO
+    (XI (XO (XO (XI XH))))))) :: ((Zpos (XI (XI (XO (XO (XI (XI
+    XH))))))) :: ((Zpos (XO (XO (XI (XO (XI (XI
+    XH))))))) :: [])))))))))))))))))
+
+(** val m_NO_ACTION : str **)
+
+let m_NO_ACTION =
+  (Zpos (XO (XI (XI (XI (XO (XI XH))))))) :: ((Zpos (XI (XI (XI (XI (XO (XI
+    XH))))))) :: ((Zpos (XO (XO (XO (XO (XO XH)))))) :: ((Zpos (XI (XO (XO
+    (XO (XO (XI XH))))))) :: ((Zpos (XI (XI (XO (XO (XO (XI
+    XH))))))) :: ((Zpos (XO (XO (XI (XO (XI (XI XH))))))) :: ((Zpos (XI (XO
+    (XO (XI (XO (XI XH))))))) :: ((Zpos (XI (XI (XI (XI (XO (XI
+    XH))))))) :: ((Zpos (XO (XI (XI (XI (XO (XI XH))))))) :: ((Zpos (XO (XO
+    (XO (XO (XO XH)))))) :: ((Zpos (XI (XI (XO (XO (XI (XI
+    XH))))))) :: ((Zpos (XO (XO (XO (XO (XI (XI XH))))))) :: ((Zpos (XI (XO
+    (XI (XO (XO (XI XH))))))) :: ((Zpos (XI (XI (XO (XO (XO (XI
+    XH))))))) :: ((Zpos (XI (XO (XO (XI (XO (XI XH))))))) :: ((Zpos (XO (XI
+    (XI (XO (XO (XI XH))))))) :: ((Zpos (XI (XO (XO (XI (XO (XI
+    XH))))))) :: ((Zpos (XI (XO (XI (XO (XO (XI XH))))))) :: ((Zpos (XO (XO
+    (XI (XO (XO (XI XH))))))) :: []))))))))))))))))))
+
+(** val m_TIMEOUT_JSON : str **)
+
+let m_TIMEOUT_JSON =
+  (Zpos (XI (XI (XO (XI (XI (XI XH))))))) :: ((Zpos (XO (XI (XO (XO (XO
+    XH)))))) :: ((Zpos (XI (XO (XI (XO (XO (XI XH))))))) :: ((Zpos (XO (XI
+    (XO (XO (XI (XI XH))))))) :: ((Zpos (XO (XI (XO (XO (XI (XI
+    XH))))))) :: ((Zpos (XI (XI (XI (XI (XO (XI XH))))))) :: ((Zpos (XO (XI
+    (XO (XO (XI (XI XH))))))) :: ((Zpos (XO (XI (XO (XO (XO
+    XH)))))) :: ((Zpos (XO (XI (XO (XI (XI XH)))))) :: ((Zpos (XO (XI (XO (XO
+    (XO XH)))))) :: ((Zpos (XO (XO (XI (XO (XI (XI XH))))))) :: ((Zpos (XI
+    (XO (XO (XI (XO (XI XH))))))) :: ((Zpos (XI (XO (XI (XI (XO (XI
+    XH))))))) :: ((Zpos (XI (XO (XI (XO (XO (XI XH))))))) :: ((Zpos (XI (XI
+    (XI (XI (XO (XI XH))))))) :: ((Zpos (XI (XO (XI (XO (XI (XI
+    XH))))))) :: ((Zpos (XO (XO (XI (XO (XI (XI XH))))))) :: ((Zpos (XO (XI
+    (XO (XO (XO XH)))))) :: ((Zpos (XI (XO (XI (XI (XI (XI
+    XH))))))) :: []))))))))))))))))))
+
+(** val s_CTYPE : str **)
+
+let s_CTYPE =
+  (Zpos (XI (XI (XO (XO (XO (XO XH))))))) :: ((Zpos (XI (XI (XI (XI (XO (XI
+    XH))))))) :: ((Zpos (XO (XI (XI (XI (XO (XI XH))))))) :: ((Zpos (XO (XO
+    (XI (XO (XI (XI XH))))))) :: ((Zpos (XI (XO (XI (XO (XO (XI
+    XH))))))) :: ((Zpos (XO (XI (XI (XI (XO (XI XH))))))) :: ((Zpos (XO (XO
+    (XI (XO (XI (XI XH))))))) :: ((Zpos (XI (XO (XI (XI (XO
+    XH)))))) :: ((Zpos (XO (XO (XI (XO (XI (XO XH))))))) :: ((Zpos (XI (XO
+    (XO (XI (XI (XI XH))))))) :: ((Zpos (XO (XO (XO (XO (XI (XI
+    XH))))))) :: ((Zpos (XI (XO (XI (XO (XO (XI XH))))))) :: ((Zpos (XO (XI
+    (XO (XI (XI XH)))))) :: ((Zpos (XO (XO (XO (XO (XO XH)))))) :: ((Zpos (XI
+    (XO (XO (XO (XO (XI XH))))))) :: ((Zpos (XO (XO (XO (XO (XI (XI
+    XH))))))) :: ((Zpos (XO (XO (XO (XO (XI (XI XH))))))) :: ((Zpos (XO (XO
+    (XI (XI (XO (XI XH))))))) :: ((Zpos (XI (XO (XO (XI (XO (XI
+    XH))))))) :: ((Zpos (XI (XI (XO (XO (XO (XI XH))))))) :: ((Zpos (XI (XO
+    (XO (XO (XO (XI XH))))))) :: ((Zpos (XO (XO (XI (XO (XI (XI
+    XH))))))) :: ((Zpos (XI (XO (XO (XI (XO (XI XH))))))) :: ((Zpos (XI (XI
+    (XI (XI (XO (XI XH))))))) :: ((Zpos (XO (XI (XI (XI (XO (XI
+    XH))))))) :: ((Zpos (XI (XI (XI (XI (XO XH)))))) :: ((Zpos (XO (XI (XO
+    (XI (XO (XI XH))))))) :: ((Zpos (XI (XI (XO (XO (XI (XI
+    XH))))))) :: ((Zpos (XI (XI (XI (XI (XO (XI XH))))))) :: ((Zpos (XO (XI
+    (XI (XI (XO (XI XH))))))) :: ((Zpos (XI (XO (XI XH)))) :: ((Zpos (XO (XI
+    (XO XH)))) :: [])))))))))))))))))))))))))))))))
+
+type pres =
+| PCont of pstate
+| PBreak of pstate
+| PEarly of str
+
+(** val process : pstate -> str -> pres **)
+
+let process p text =
+  match p.p_section with
+  | O ->
+    (match get_match text with
+     | Some q ->
+       PCont { p_section = (S O); p_get = (Some q); p_h = p.p_h; p_body =
+         p.p_body }
+     | None ->
+       if prefixb s_POST text
+       then PCont { p_section = (S O); p_get = None; p_h = p.p_h; p_body =
+              p.p_body }
+       else PEarly m_INVALID_METHOD)
+  | S n ->
+    (match n with
+     | O ->
+       if str_eqb text cRLF
+       then (match p.p_get with
+             | Some _ -> PBreak p
+             | None ->
+               if Z.eqb p.p_h.h_clen Z0
+               then PEarly m_CL_MISSING
+               else PCont { p_section = (S (S O)); p_get = p.p_get; p_h =
+                      p.p_h; p_body = p.p_body })
+       else (match header_line p.p_h text with
+             | Some h' ->
+               PCont { p_section = (S O); p_get = p.p_get; p_h = h'; p_body =
+                 p.p_body }
+             | None -> PEarly m_INVALID_CL)
+     | S _ ->
+       PCont { p_section = p.p_section; p_get = p.p_get; p_h = p.p_h;
+         p_body = (app p.p_body text) })
+
+(** val run : nat -> scanner -> pstate -> ((pstate, str) sum * bool) res **)
+
+let rec run fuel s p =
+  match fuel with
+  | O -> Err OutOfFuel
+  | S f ->
+    (match scan_step s (length p.p_body) p.p_h.h_clen with
+     | STok (t0, s') ->
+       (match process p t0 with
+        | PCont p' -> run f s' p'
+        | PBreak p' -> Ok ((Inl p'), s'.sc_eof)
+        | PEarly m -> Ok ((Inr m), s'.sc_eof))
+     | SFinal t0 ->
+       (match process p t0 with
+        | PCont p' -> Ok ((Inl p'), s.sc_eof)
+        | PBreak p' -> Ok ((Inl p'), s.sc_eof)
+        | PEarly m -> Ok ((Inr m), s.sc_eof))
+     | SStop -> Ok ((Inl p), s.sc_eof)
+     | SMore s' -> run f s' p)
+
+(** val total_len : str list -> nat **)
+
+let total_len chunks =
+  length (concat chunks)
+
+(** val fuel_of : str list -> nat **)
+
+let fuel_of chunks =
+  add (add (mul (S (S O)) (total_len chunks)) (length chunks)) (S (S O))
+
+type outcome0 = { o_code : z; o_resp : str; o_actions : str option;
+                  o_get : (z * z) option }
+
+(** val code_digits : z -> str **)
+
+let code_digits code =
+  if Z.eqb code (Zpos (XO (XO (XO (XI (XO (XO (XI XH))))))))
+  then (Zpos (XO (XI (XO (XO (XI XH)))))) :: ((Zpos (XO (XO (XO (XO (XI
+         XH)))))) :: ((Zpos (XO (XO (XO (XO (XI XH)))))) :: []))
+  else if Z.eqb code (Zpos (XO (XO (XO (XO (XI (XO (XO (XI XH)))))))))
+       then (Zpos (XO (XO (XI (XO (XI XH)))))) :: ((Zpos (XO (XO (XO (XO (XI
+              XH)))))) :: ((Zpos (XO (XO (XO (XO (XI XH)))))) :: []))
+       else if Z.eqb code (Zpos (XI (XO (XO (XO (XI (XO (XO (XI XH)))))))))
+            then (Zpos (XO (XO (XI (XO (XI XH)))))) :: ((Zpos (XO (XO (XO (XO
+                   (XI XH)))))) :: ((Zpos (XI (XO (XO (XO (XI XH)))))) :: []))
+            else (Zpos (XI (XO (XI (XO (XI XH)))))) :: ((Zpos (XO (XO (XO (XO
+                   (XI XH)))))) :: ((Zpos (XI (XI (XO (XO (XI XH)))))) :: []))
+
+(** val status_line : z -> str **)
+
+let status_line code =
+  app s_HTTP11
+    (app (code_digits code)
+      (app ((Zpos (XO (XO (XO (XO (XO XH)))))) :: [])
+        (app (reason code) cRLF)))
+
+(** val answer : z -> str -> str -> str **)
+
+let answer code extra msg =
+  app (status_line code)
+    (app extra
+      (app s_CLEN_HDR
+        (app (print_dec (add (length msg) (S O)))
+          (app cRLF (app cRLF (app msg ((Zpos (XO (XI (XO XH)))) :: [])))))))
+
+(** val bad : str -> outcome0 **)
+
+let bad msg =
+  { o_code = (Zpos (XO (XO (XO (XO (XI (XO (XO (XI XH))))))))); o_resp =
+    (answer (Zpos (XO (XO (XO (XO (XI (XO (XO (XI XH))))))))) [] msg);
+    o_actions = None; o_get = None }
+
+(** val unauthorized : outcome0 **)
+
+let unauthorized =
+  { o_code = (Zpos (XI (XO (XO (XO (XI (XO (XO (XI XH))))))))); o_resp =
+    (answer (Zpos (XI (XO (XO (XO (XI (XO (XO (XI XH))))))))) []
+      m_INVALID_KEY); o_actions = None; o_get = None }
+
+type decision =
+| DOut of outcome0
+| DGet of str
+| DParse of str
+
+(** val decide : str -> (pstate, str) sum -> decision **)
+
+let decide key0 = function
+| Inl p ->
+  if (&&) (nonemptyb key0) (negb (str_eqb p.p_h.h_key key0))
+  then DOut unauthorized
+  else (match p.p_get with
+        | Some q -> DGet q
+        | None ->
+          if Z.ltb (Z.of_nat (length p.p_body)) p.p_h.h_clen
+          then DOut (bad m_INCOMPLETE)
+          else DParse (trim_crlf (firstn (Z.to_nat p.p_h.h_clen) p.p_body)))
+| Inr m -> DOut (bad m)
+
+(** val finish : str -> (str -> verdict) -> bool -> decision -> outcome0 **)
+
+let finish state parse ready = function
+| DOut o -> o
+| DGet q ->
+  let gp = get_params q in
+  if nonemptyb state
+  then { o_code = (Zpos (XO (XO (XO (XI (XO (XO (XI XH)))))))); o_resp =
+         (answer (Zpos (XO (XO (XO (XI (XO (XO (XI XH)))))))) s_CTYPE state);
+         o_actions = None; o_get = (Some gp) }
+  else { o_code = (Zpos (XI (XI (XI (XO (XI (XI (XI (XI XH))))))))); o_resp =
+         (answer (Zpos (XI (XI (XI (XO (XI (XI (XI (XI XH))))))))) s_CTYPE
+           m_TIMEOUT_JSON); o_actions = None; o_get = (Some gp) }
+| DParse b ->
+  (match parse b with
+   | VAccept ->
+     if ready
+     then { o_code = (Zpos (XO (XO (XO (XI (XO (XO (XI XH)))))))); o_resp =
+            (app (status_line (Zpos (XO (XO (XO (XI (XO (XO (XI XH)))))))))
+              cRLF); o_actions = (Some b); o_get = None }
+     else { o_code = (Zpos (XI (XI (XI (XO (XI (XI (XI (XI XH)))))))));
+            o_resp =
+            (app
+              (status_line (Zpos (XI (XI (XI (XO (XI (XI (XI (XI XH))))))))))
+              cRLF); o_actions = None; o_get = None }
+   | VEmpty -> bad m_NO_ACTION
+   | VError m -> bad m)
+
+(** val scan_eof : str list -> ((pstate, str) sum * bool) res **)
+
+let scan_eof chunks =
+  run (fuel_of chunks) (sc_init chunks) p_init
+
+(** val scan_all : str list -> (pstate, str) sum res **)
+
+let scan_all chunks =
+  bind (scan_eof chunks) (fun x -> Ok (fst x))
+
+(** val waits_for_close : str list -> bool res **)
+
+let waits_for_close chunks =
+  bind (scan_eof chunks) (fun x -> Ok (snd x))
+
+(** val handle :
+    str -> str -> (str -> verdict) -> bool -> str list -> outcome0 res **)
+
+let handle key0 state parse ready chunks =
+  bind (scan_all chunks) (fun r -> Ok
+    (finish state parse ready (decide key0 r)))
+
+(** val pending_body : str -> str list -> str option res **)
+
+let pending_body key0 chunks =
+  bind (scan_all chunks) (fun r -> Ok
+    (match decide key0 r with
+     | DParse b -> Some b
+     | _ -> None))
+
+type listen_res =
+| LAddrInvalid
+| LPortInvalid
+| LOk of str * z
+
+(** val parse_listen_address : str -> listen_res **)
+
+let parse_listen_address a =
+  match split_first (Zpos (XO (XI (XO (XI (XI XH)))))) a with
+  | Some p0 ->
+    let (h, p) = p0 in
+    (match split_first (Zpos (XO (XI (XO (XI (XI XH)))))) p with
+     | Some _ ->
+       let host = None in
+       (match host with
+        | Some h1 ->
+          (match atoi p with
+           | Some n ->
+             if (&&) (Z.leb Z0 n)
+                  (Z.leb n (Zpos (XI (XI (XI (XI (XI (XI (XI (XI (XI (XI (XI
+                    (XI (XI (XI (XI XH)))))))))))))))))
+             then LOk ((match h1 with
+                        | [] -> s_LOCALHOST
+                        | _ :: _ -> h1), n)
+             else LPortInvalid
+           | None -> LPortInvalid)
+        | None -> LAddrInvalid)
+     | None ->
+       let host = Some h in
+       (match host with
+        | Some h1 ->
+          (match atoi p with
+           | Some n ->
+             if (&&) (Z.leb Z0 n)
+                  (Z.leb n (Zpos (XI (XI (XI (XI (XI (XI (XI (XI (XI (XI (XI
+                    (XI (XI (XI (XI XH)))))))))))))))))
+             then LOk ((match h1 with
+                        | [] -> s_LOCALHOST
+                        | _ :: _ -> h1), n)
+             else LPortInvalid
+           | None -> LPortInvalid)
+        | None -> LAddrInvalid))
+  | None ->
+    let host = Some s_LOCALHOST in
+    (match host with
+     | Some h ->
+       (match atoi a with
+        | Some n ->
+          if (&&) (Z.leb Z0 n)
+               (Z.leb n (Zpos (XI (XI (XI (XI (XI (XI (XI (XI (XI (XI (XI (XI
+                 (XI (XI (XI XH)))))))))))))))))
+          then LOk ((match h with
+                     | [] -> s_LOCALHOST
+                     | _ :: _ -> h), n)
+          else LPortInvalid
+        | None -> LPortInvalid)
+     | None -> LAddrInvalid)
+
+type start_res =
+| StartRefusedNoKey
+| StartListen of str * z
+| StartBadAddress of listen_res
+
+(** val start_decision : str -> str -> start_res **)
+
+let start_decision a key0 =
+  match parse_listen_address a with
+  | LOk (host, port) ->
+    if (&&) (negb (is_local host)) (negb (nonemptyb key0))
+    then StartRefusedNoKey
+    else StartListen (host, port)
+  | x -> StartBadAddress x
+
+(** val as_verdict : val0 -> verdict **)
+
+let as_verdict v =
+  let t0 = as_int (arg v O) in
+  if Z.eqb t0 Z0
+  then VAccept
+  else if Z.eqb t0 (Zpos XH) then VEmpty else VError (as_str (arg v (S O)))
+
+(** val vopt_str : str option -> val0 **)
+
+let vopt_str = function
+| Some b -> VL ((vstr b) :: [])
+| None -> VL []
+
+(** val v_outcome : outcome0 -> val0 **)
+
+let v_outcome o =
+  VL ((VI
+    o.o_code) :: ((vstr o.o_resp) :: ((vopt_str o.o_actions) :: ((match o.o_get with
+                                                                  | Some p ->
+                                                                    let (
+                                                                    l, f) = p
+                                                                    in
+                                                                    VL ((VI
+                                                                    (Z.div l
+                                                                    (Zpos (XO
+                                                                    (XO (XO
+                                                                    (XO (XO
+                                                                    (XO (XO
+                                                                    (XO (XO
+                                                                    (XO (XO
+                                                                    (XO (XO
+                                                                    (XO (XO
+                                                                    (XO (XO
+                                                                    (XO (XO
+                                                                    (XO (XO
+                                                                    (XO (XO
+                                                                    (XO (XO
+                                                                    (XO (XO
+                                                                    (XO (XO
+                                                                    (XO (XO
+                                                                    (XO
+                                                                    XH))))))))))))))))))))))))))))))))))) :: ((VI
+                                                                    (Z.modulo
+                                                                    l (Zpos
+                                                                    (XO (XO
+                                                                    (XO (XO
+                                                                    (XO (XO
+                                                                    (XO (XO
+                                                                    (XO (XO
+                                                                    (XO (XO
+                                                                    (XO (XO
+                                                                    (XO (XO
+                                                                    (XO (XO
+                                                                    (XO (XO
+                                                                    (XO (XO
+                                                                    (XO (XO
+                                                                    (XO (XO
+                                                                    (XO (XO
+                                                                    (XO (XO
+                                                                    (XO (XO
+                                                                    XH))))))))))))))))))))))))))))))))))) :: ((VI
+                                                                    (Z.div f
+                                                                    (Zpos (XO
+                                                                    (XO (XO
+                                                                    (XO (XO
+                                                                    (XO (XO
+                                                                    (XO (XO
+                                                                    (XO (XO
+                                                                    (XO (XO
+                                                                    (XO (XO
+                                                                    (XO (XO
+                                                                    (XO (XO
+                                                                    (XO (XO
+                                                                    (XO (XO
+                                                                    (XO (XO
+                                                                    (XO (XO
+                                                                    (XO (XO
+                                                                    (XO (XO
+                                                                    (XO
+                                                                    XH))))))))))))))))))))))))))))))))))) :: ((VI
+                                                                    (Z.modulo
+                                                                    f (Zpos
+                                                                    (XO (XO
+                                                                    (XO (XO
+                                                                    (XO (XO
+                                                                    (XO (XO
+                                                                    (XO (XO
+                                                                    (XO (XO
+                                                                    (XO (XO
+                                                                    (XO (XO
+                                                                    (XO (XO
+                                                                    (XO (XO
+                                                                    (XO (XO
+                                                                    (XO (XO
+                                                                    (XO (XO
+                                                                    (XO (XO
+                                                                    (XO (XO
+                                                                    (XO (XO
+                                                                    XH))))))))))))))))))))))))))))))))))) :: []))))
+                                                                  | None ->
+                                                                    VL []) :: []))))
+
+(** val v_start : start_res -> val0 **)
+
+let v_start = function
+| StartRefusedNoKey -> VL ((VI Z0) :: [])
+| StartListen (h, p) -> VL ((VI (Zpos XH)) :: ((vstr h) :: ((VI p) :: [])))
+| StartBadAddress r0 ->
+  (match r0 with
+   | LAddrInvalid -> VL ((VI (Zpos (XO XH))) :: [])
+   | _ -> VL ((VI (Zpos (XI XH))) :: []))
+
+(** val dispatch_http : z -> val0 -> val0 option **)
+
+let dispatch_http op a =
+  if Z.eqb op (Zpos (XI (XO (XO (XO (XO (XO (XI (XO (XO (XI XH)))))))))))
+  then Some
+         (match handle (as_str (arg a O)) (as_str (arg a (S O))) (fun _ ->
+                  as_verdict (arg a (S (S O))))
+                  (as_bool (arg a (S (S (S O)))))
+                  (as_strs (arg a (S (S (S (S O)))))) with
+          | Ok o -> v_outcome o
+          | Err _ -> verr)
+  else if Z.eqb op (Zpos (XO (XI (XO (XO (XO (XO (XI (XO (XO (XI XH)))))))))))
+       then Some
+              (match pending_body (as_str (arg a O)) (as_strs (arg a (S O))) with
+               | Ok o -> vopt_str o
+               | Err _ -> verr)
+       else if Z.eqb op (Zpos (XI (XI (XO (XO (XO (XO (XI (XO (XO (XI
+                 XH)))))))))))
+            then Some (VI
+                   (match wf_response (as_str a) with
+                    | Some c -> c
+                    | None -> Zneg XH))
+            else if Z.eqb op (Zpos (XO (XO (XI (XO (XO (XO (XI (XO (XO (XI
+                      XH)))))))))))
+                 then Some
+                        (vopt_str
+                          (spec_body (as_str (arg a O))
+                            (as_str (arg a (S O)))))
+                 else if Z.eqb op (Zpos (XI (XO (XI (XO (XO (XO (XI (XO (XO
+                           (XI XH)))))))))))
+                      then Some
+                             (vbool
+                               (infixb (as_str (arg a O))
+                                 (as_str (arg a (S O)))))
+                      else if Z.eqb op (Zpos (XO (XI (XI (XO (XO (XO (XI (XO
+                                (XO (XI XH)))))))))))
+                           then Some
+                                  (v_start
+                                    (start_decision (as_str (arg a O))
+                                      (as_str (arg a (S O)))))
+                           else if Z.eqb op (Zpos (XI (XI (XI (XO (XO (XO (XI
+                                     (XO (XO (XI XH)))))))))))
+                                then Some (vopt_str (get_match (as_str a)))
+                                else if Z.eqb op (Zpos (XO (XO (XO (XI (XO
+                                          (XO (XI (XO (XO (XI XH)))))))))))
+                                     then Some
+                                            (match waits_for_close (as_strs a) with
+                                             | Ok b -> vbool b
+                                             | Err _ -> verr)
+                                     else None
+
 type field = nat
 
 (** val f_FUZZY : field **)
@@ -9290,26 +10708,26 @@ let is_digit c =
   (&&) (Z.leb (Zpos (XO (XO (XO (XO (XI XH)))))) c)
     (Z.leb c (Zpos (XI (XO (XO (XI (XI XH)))))))
 
-(** val digits_val : z -> str -> z option **)
+(** val digits_val0 : z -> str -> z option **)
 
-let rec digits_val acc = function
+let rec digits_val0 acc = function
 | [] -> Some acc
 | c :: r ->
   if is_digit c
-  then digits_val
+  then digits_val0
          (Z.add (Z.mul acc (Zpos (XO (XI (XO XH)))))
            (Z.sub c (Zpos (XO (XO (XO (XO (XI XH)))))))) r
   else None
 
-(** val atoi : str -> z option **)
+(** val atoi0 : str -> z option **)
 
-let atoi s = match s with
+let atoi0 s = match s with
 | [] ->
   let neg = false in
   (match s with
    | [] -> None
    | _ :: _ ->
-     (match digits_val Z0 s with
+     (match digits_val0 Z0 s with
       | Some n ->
         let v = if neg then Z.opp n else n in
         if (&&)
@@ -9335,7 +10753,7 @@ let atoi s = match s with
        (match r with
         | [] -> None
         | _ :: _ ->
-          (match digits_val Z0 r with
+          (match digits_val0 Z0 r with
            | Some n ->
              let v = if neg then Z.opp n else n in
              if (&&)
@@ -9360,7 +10778,7 @@ let atoi s = match s with
             (match r with
              | [] -> None
              | _ :: _ ->
-               (match digits_val Z0 r with
+               (match digits_val0 Z0 r with
                 | Some n ->
                   let v = if neg then Z.opp n else n in
                   if (&&)
@@ -9385,7 +10803,7 @@ let atoi s = match s with
             (match s with
              | [] -> None
              | _ :: _ ->
-               (match digits_val Z0 s with
+               (match digits_val0 Z0 s with
                 | Some n ->
                   let v = if neg then Z.opp n else n in
                   if (&&)
@@ -9692,11 +11110,11 @@ let parse_range s =
   if str_eqb s (dOT :: (dOT :: []))
   then Some (new_range Z0 Z0)
   else if has_prefix (dOT :: (dOT :: [])) s
-       then (match nonzero (atoi (skipn (S (S O)) s)) with
+       then (match nonzero (atoi0 (skipn (S (S O)) s)) with
              | Some e -> Some (new_range Z0 e)
              | None -> None)
        else if has_suffix (dOT :: (dOT :: [])) s
-            then (match nonzero (atoi (firstn (sub (length s) (S (S O))) s)) with
+            then (match nonzero (atoi0 (firstn (sub (length s) (S (S O))) s)) with
                   | Some bg -> Some (new_range bg Z0)
                   | None -> None)
             else (match find_dotdot [] s with
@@ -9705,9 +11123,9 @@ let parse_range s =
                     (match find_dotdot [] r with
                      | Some _ -> None
                      | None ->
-                       (match nonzero (atoi a) with
+                       (match nonzero (atoi0 a) with
                         | Some bg ->
-                          (match nonzero (atoi r) with
+                          (match nonzero (atoi0 r) with
                            | Some e ->
                              if (&&) (Z.ltb bg Z0) (Z.ltb Z0 e)
                              then None
@@ -9715,7 +11133,7 @@ let parse_range s =
                            | None -> None)
                         | None -> None))
                   | None ->
-                    (match nonzero (atoi s) with
+                    (match nonzero (atoi0 s) with
                      | Some n -> Some (new_range n n)
                      | None -> None))
 
@@ -10387,7 +11805,7 @@ let parse_height s = match s with
        let percent = has_suffix ((Zpos (XI (XO (XI (XO (XO XH)))))) :: []) s0
        in
        if percent
-       then (match atoi (firstn (sub (length s0) (S O)) s0) with
+       then (match atoi0 (firstn (sub (length s0) (S O)) s0) with
              | Some v ->
                if (||) (Z.ltb v Z0)
                     (Z.ltb (Zpos (XO (XO (XI (XO (XO (XI XH))))))) v)
@@ -10397,7 +11815,7 @@ let parse_height s = match s with
              | None -> None)
        else if contains (dOT :: []) s0
             then None
-            else (match atoi s0 with
+            else (match atoi0 s0 with
                   | Some v ->
                     if Z.ltb v Z0
                     then None
@@ -10419,7 +11837,7 @@ let parse_height s = match s with
               has_suffix ((Zpos (XI (XO (XI (XO (XO XH)))))) :: []) s0
             in
             if percent
-            then (match atoi (firstn (sub (length s0) (S O)) s0) with
+            then (match atoi0 (firstn (sub (length s0) (S O)) s0) with
                   | Some v ->
                     if (||) (Z.ltb v Z0)
                          (Z.ltb (Zpos (XO (XO (XI (XO (XO (XI XH))))))) v)
@@ -10429,7 +11847,7 @@ let parse_height s = match s with
                   | None -> None)
             else if contains (dOT :: []) s0
                  then None
-                 else (match atoi s0 with
+                 else (match atoi0 s0 with
                        | Some v ->
                          if Z.ltb v Z0
                          then None
@@ -10449,7 +11867,7 @@ let parse_height s = match s with
               has_suffix ((Zpos (XI (XO (XI (XO (XO XH)))))) :: []) s0
             in
             if percent
-            then (match atoi (firstn (sub (length s0) (S O)) s0) with
+            then (match atoi0 (firstn (sub (length s0) (S O)) s0) with
                   | Some v ->
                     if (||) (Z.ltb v Z0)
                          (Z.ltb (Zpos (XO (XO (XI (XO (XO (XI XH))))))) v)
@@ -10459,7 +11877,7 @@ let parse_height s = match s with
                   | None -> None)
             else if contains (dOT :: []) s0
                  then None
-                 else (match atoi s0 with
+                 else (match atoi0 s0 with
                        | Some v ->
                          if Z.ltb v Z0
                          then None
@@ -10515,7 +11933,7 @@ let parse_listen addr =
   (match hp with
    | Some p0 ->
      let (h, p) = p0 in
-     (match atoi p with
+     (match atoi0 p with
       | Some n ->
         if (||) (Z.ltb n Z0)
              (Z.ltb (Zpos (XI (XI (XI (XI (XI (XI (XI (XI (XI (XI (XI (XI (XI
@@ -10534,11 +11952,11 @@ let run_parser p s =
   match p with
   | PStr -> Some ((vstr s) :: [])
   | PSomeStr -> Some ((vsome (vstr s)) :: [])
-  | PInt -> (match atoi s with
+  | PInt -> (match atoi0 s with
              | Some n -> Some ((VI n) :: [])
              | None -> None)
   | PPosInt ->
-    (match atoi s with
+    (match atoi0 s with
      | Some n -> if Z.ltb Z0 n then Some ((VI n) :: []) else None
      | None -> None)
   | PAlgo ->
@@ -11909,7 +13327,7 @@ let exec e k v c rest =
   | KOptNum (f, d) ->
     (match v with
      | Some x ->
-       (match atoi x with
+       (match atoi0 x with
         | Some n -> Ok (Good ((setf f (VI n) c), O))
         | None -> Ok (Bad e_BAD_VALUE))
      | None ->
@@ -11919,7 +13337,7 @@ let exec e k v c rest =
           if match a with
              | [] -> false
              | ch :: _ -> is_digit ch
-          then (match atoi a with
+          then (match atoi0 a with
                 | Some n -> Ok (Good ((setf f (VI n) c), (S O)))
                 | None -> Ok (Bad e_BAD_VALUE))
           else Ok (Good ((setf f (VI d) c), O))))
@@ -11971,7 +13389,7 @@ let exec e k v c rest =
     (match next_string v rest with
      | Some p ->
        let (s, n) = p in
-       (match atoi s with
+       (match atoi0 s with
         | Some m ->
           if Z.ltb m (Zpos XH)
           then Ok (Bad e_BAD_VALUE)
@@ -12323,9 +13741,9 @@ let starts c = function
 let ends c s =
   starts c (rev s)
 
-(** val trim_left : str -> str **)
+(** val trim_left0 : str -> str **)
 
-let trim_left q =
+let trim_left0 q =
   drop_while (fun c -> Z.eqb c chSP) q
 
 (** val trim_right_rev : str -> str **)
@@ -12342,7 +13760,7 @@ let rec trim_right_rev r = match r with
 (** val trim : str -> str **)
 
 let trim q =
-  rev (trim_right_rev (rev (trim_left q)))
+  rev (trim_right_rev (rev (trim_left0 q)))
 
 (** val emit : 'a1 list -> 'a1 list list -> 'a1 list list **)
 
@@ -12645,10 +14063,10 @@ let strip_ops fuzzy typ text =
                    else Ok (typ1, text1)) (fun r3 ->
         let (typ2, text2) = r3 in Ok ((typ2, inv), text2))))
 
-type pstate = { st_sets : termSet list; st_set : termSet;
-                st_switchSet : bool; st_afterBar : bool }
+type pstate0 = { st_sets : termSet list; st_set : termSet;
+                 st_switchSet : bool; st_afterBar : bool }
 
-(** val parse_step : char_ops -> popts -> pstate -> str -> pstate res **)
+(** val parse_step : char_ops -> popts -> pstate0 -> str -> pstate0 res **)
 
 let parse_step co o st text0 =
   let lowerText = to_lower0 co text0 in
@@ -12691,7 +14109,7 @@ let parse_step co o st text0 =
                 st.st_switchSet; st_afterBar = false })
 
 (** val parse_loop :
-    char_ops -> popts -> str list -> pstate -> termSet list res **)
+    char_ops -> popts -> str list -> pstate0 -> termSet list res **)
 
 let rec parse_loop co o toks st =
   match toks with
@@ -13091,17 +14509,17 @@ let step0 s c =
     then None
     else Some { l_mode = InWord; l_cur = (c :: s.l_cur); l_acc = s.l_acc }
 
-(** val run : lst -> str -> lst option **)
+(** val run0 : lst -> str -> lst option **)
 
-let rec run s = function
+let rec run0 s = function
 | [] -> Some s
 | c :: r -> (match step0 s c with
-             | Some s' -> run s' r
+             | Some s' -> run0 s' r
              | None -> None)
 
-(** val finish : lst -> str list option **)
+(** val finish0 : lst -> str list option **)
 
-let finish s =
+let finish0 s =
   match s.l_mode with
   | Out -> Some (rev s.l_acc)
   | InWord -> Some (rev ((rev s.l_cur) :: s.l_acc))
@@ -13115,8 +14533,8 @@ let l_init =
 (** val sh_words : str -> str list option **)
 
 let sh_words t0 =
-  match run l_init t0 with
-  | Some s -> finish s
+  match run0 l_init t0 with
+  | Some s -> finish0 s
   | None -> None
 
 type seg =
@@ -13153,9 +14571,10 @@ let rec feed_segs s = function
 | [] -> Some s
 | s0 :: r ->
   (match s0 with
-   | SLit t0 -> (match run s t0 with
-                 | Some s' -> feed_segs s' r
-                 | None -> None)
+   | SLit t0 ->
+     (match run0 s t0 with
+      | Some s' -> feed_segs s' r
+      | None -> None)
    | SWords ws ->
      (match feed_words s ws with
       | Some s' -> feed_segs s' r
@@ -13165,7 +14584,7 @@ let rec feed_segs s = function
 
 let template_words gs =
   match feed_segs l_init gs with
-  | Some s -> finish s
+  | Some s -> finish0 s
   | None -> None
 
 (** val join_sp : str list -> str **)
@@ -13568,13 +14987,13 @@ let is_digit0 c =
   (&&) (Z.leb (Zpos (XO (XO (XO (XO (XI XH)))))) c)
     (Z.leb c (Zpos (XI (XO (XO (XI (XI XH)))))))
 
-(** val digits_val0 : z -> str -> z option **)
+(** val digits_val1 : z -> str -> z option **)
 
-let rec digits_val0 acc = function
+let rec digits_val1 acc = function
 | [] -> Some acc
 | c :: r ->
   if is_digit0 c
-  then digits_val0
+  then digits_val1
          (Z.add (Z.mul acc (Zpos (XO (XI (XO XH)))))
            (Z.sub c (Zpos (XO (XO (XO (XO (XI XH)))))))) r
   else None
@@ -13597,15 +15016,15 @@ let int_max =
     (XI (XI (XI (XI (XI (XI (XI (XI (XI
     XH))))))))))))))))))))))))))))))))))))))))))))))))))))))))))))))
 
-(** val atoi0 : str -> z option **)
+(** val atoi1 : str -> z option **)
 
-let atoi0 s = match s with
+let atoi1 s = match s with
 | [] ->
   let neg = false in
   (match s with
    | [] -> None
    | _ :: _ ->
-     (match digits_val0 Z0 s with
+     (match digits_val1 Z0 s with
       | Some v ->
         let v0 = if neg then Z.opp v else v in
         if (&&) (Z.leb int_min v0) (Z.leb v0 int_max) then Some v0 else None
@@ -13616,7 +15035,7 @@ let atoi0 s = match s with
        (match r with
         | [] -> None
         | _ :: _ ->
-          (match digits_val0 Z0 r with
+          (match digits_val1 Z0 r with
            | Some v ->
              let v0 = if neg then Z.opp v else v in
              if (&&) (Z.leb int_min v0) (Z.leb v0 int_max)
@@ -13628,7 +15047,7 @@ let atoi0 s = match s with
             (match r with
              | [] -> None
              | _ :: _ ->
-               (match digits_val0 Z0 r with
+               (match digits_val1 Z0 r with
                 | Some v ->
                   let v0 = if neg then Z.opp v else v in
                   if (&&) (Z.leb int_min v0) (Z.leb v0 int_max)
@@ -13639,7 +15058,7 @@ let atoi0 s = match s with
             (match s with
              | [] -> None
              | _ :: _ ->
-               (match digits_val0 Z0 s with
+               (match digits_val1 Z0 s with
                 | Some v ->
                   let v0 = if neg then Z.opp v else v in
                   if (&&) (Z.leb int_min v0) (Z.leb v0 int_max)
@@ -13709,7 +15128,7 @@ let new_range0 b e =
 (** val atoi_nz : str -> z option **)
 
 let atoi_nz s =
-  match atoi0 s with
+  match atoi1 s with
   | Some v -> if Z.eqb v Z0 then None else Some v
   | None -> None
 
@@ -13869,9 +15288,9 @@ let transform1 ts r =
 let transform_join ts rs =
   concat (map (transform1 ts) rs)
 
-(** val ascii_space : z -> bool **)
+(** val ascii_space0 : z -> bool **)
 
-let ascii_space c =
+let ascii_space0 c =
   (||)
     ((&&) (Z.leb (Zpos (XI (XO (XO XH)))) c)
       (Z.leb c (Zpos (XI (XO (XI XH))))))
@@ -13882,7 +15301,7 @@ let ascii_space c =
 let space_len = function
 | [] -> O
 | a :: r ->
-  if ascii_space a
+  if ascii_space0 a
   then S O
   else (match r with
         | [] -> O
@@ -13948,7 +15367,7 @@ let space_len = function
 let space_len_rev = function
 | [] -> O
 | c :: r ->
-  if ascii_space c
+  if ascii_space0 c
   then S O
   else (match r with
         | [] -> O
@@ -14018,9 +15437,9 @@ let rec trim_with f fuel s =
             | O -> s
             | S n0 -> trim_with f k (skipn (S n0) s))
 
-(** val trim_space : str -> str **)
+(** val trim_space0 : str -> str **)
 
-let trim_space s =
+let trim_space0 s =
   let l = trim_with space_len (length s) s in
   rev (trim_with space_len_rev (length l) (rev l))
 
@@ -14110,7 +15529,7 @@ let field_value p fl rs text =
     let s0 = match p.p_delim with
              | Some d -> trim_suffix s d
              | None -> s in
-    Ok (if fl.f_space then s0 else trim_space s0))
+    Ok (if fl.f_space then s0 else trim_space0 s0))
 
 (** val repl_fields :
     params -> flags -> rng list -> item -> (str * str) res **)
@@ -14159,7 +15578,7 @@ let expand_ph p m temps =
                 | Some rs ->
                   let s = transform_join (awk_tokens p.p_query) rs in
                   Ok (((OWords
-                  ((quoted p (if fl.f_space then s else trim_space s)) :: [])),
+                  ((quoted p (if fl.f_space then s else trim_space0 s)) :: [])),
                   []), temps)
                 | None -> Ok (((OText mm), []), temps))
          else if str_eqb mm s_braces
@@ -14315,6 +15734,531 @@ let dispatch_placeholder op a =
                                                  (map v_piece
                                                    (scan (as_str a) O [])))
                                           else None
+
+(** val nLB : z **)
+
+let nLB =
+  Zpos (XO (XI (XO XH)))
+
+(** val nUL : z **)
+
+let nUL =
+  Z0
+
+(** val delim_of : bool -> z **)
+
+let delim_of = function
+| true -> nUL
+| false -> nLB
+
+(** val unrev : str -> str **)
+
+let unrev cur =
+  rev_append cur []
+
+(** val split_acc : z -> str -> str -> str list **)
+
+let rec split_acc d cur = function
+| [] -> (match cur with
+         | [] -> []
+         | _ :: _ -> (unrev cur) :: [])
+| c :: r ->
+  if Z.eqb c d
+  then (unrev cur) :: (split_acc d [] r)
+  else split_acc d (c :: cur) r
+
+(** val split_records : z -> str -> str list **)
+
+let split_records d s =
+  split_acc d [] s
+
+type item0 = nat * str
+
+(** val number_from : nat -> str list -> item0 list **)
+
+let rec number_from k = function
+| [] -> []
+| r :: t0 -> (k, r) :: (number_from (S k) t0)
+
+(** val header_of : nat -> str list -> str list **)
+
+let header_of =
+  firstn
+
+(** val items_of : nat -> str list -> item0 list **)
+
+let items_of hl recs =
+  number_from O (skipn hl recs)
+
+(** val keep_tail : nat -> 'a1 list -> 'a1 list **)
+
+let keep_tail tail l =
+  match tail with
+  | O -> l
+  | S _ -> last_n tail l
+
+(** val searchable : bool -> nat -> nat -> str -> item0 list **)
+
+let searchable read0 hl tail s =
+  keep_tail tail (items_of hl (split_records (delim_of read0) s))
+
+type slice = { sl_buf : nat; sl_off : nat; sl_len : nat }
+
+type mem0 = str list
+
+(** val take_exact : nat -> 'a1 list -> 'a1 list res **)
+
+let rec take_exact n l =
+  match n with
+  | O -> Ok []
+  | S n0 ->
+    (match l with
+     | [] -> Err OutOfRange
+     | x :: t0 -> bind (take_exact n0 t0) (fun r -> Ok (x :: r)))
+
+(** val drop_exact : nat -> 'a1 list -> 'a1 list res **)
+
+let rec drop_exact n l =
+  match n with
+  | O -> Ok l
+  | S n0 -> (match l with
+             | [] -> Err OutOfRange
+             | _ :: t0 -> drop_exact n0 t0)
+
+(** val overwrite : 'a1 list -> 'a1 list -> 'a1 list res **)
+
+let rec overwrite data l =
+  match data with
+  | [] -> Ok l
+  | x :: d ->
+    (match l with
+     | [] -> Err OutOfRange
+     | _ :: t0 -> bind (overwrite d t0) (fun r -> Ok (x :: r)))
+
+(** val write_off : nat -> 'a1 list -> 'a1 list -> 'a1 list res **)
+
+let rec write_off off data l =
+  match off with
+  | O -> overwrite data l
+  | S k ->
+    (match l with
+     | [] -> Err OutOfRange
+     | x :: t0 -> bind (write_off k data t0) (fun r -> Ok (x :: r)))
+
+(** val deref : mem0 -> slice -> str res **)
+
+let deref m s =
+  bind (get m s.sl_buf) (fun b ->
+    bind (drop_exact s.sl_off b) (fun t0 -> take_exact s.sl_len t0))
+
+(** val write_at : mem0 -> nat -> nat -> str -> mem0 res **)
+
+let write_at m id off data =
+  bind (get m id) (fun b ->
+    bind (write_off off data b) (fun b' -> set_nth m id b'))
+
+(** val alloc : mem0 -> str -> mem0 * nat **)
+
+let alloc m b =
+  ((app m (b :: [])), (length m))
+
+(** val cR : z **)
+
+let cR =
+  Zpos (XI (XO (XI XH)))
+
+(** val index_byte0 : str -> z -> nat option **)
+
+let rec index_byte0 s d =
+  match s with
+  | [] -> None
+  | c :: r ->
+    if Z.eqb c d then Some O else option_map (fun x -> S x) (index_byte0 r d)
+
+type fstate = { f_mem : mem0; f_left : str; f_items : slice list }
+
+(** val emit0 : fstate -> slice -> fstate res **)
+
+let emit0 st sl =
+  match st.f_left with
+  | [] -> Ok { f_mem = st.f_mem; f_left = []; f_items = (sl :: st.f_items) }
+  | z0 :: l0 ->
+    bind (deref st.f_mem sl) (fun v ->
+      let joined = app (z0 :: l0) v in
+      let (m', id) = alloc st.f_mem joined in
+      Ok { f_mem = m'; f_left = []; f_items = ({ sl_buf = id; sl_off = O;
+      sl_len = (length joined) } :: st.f_items) })
+
+(** val scan_buf :
+    nat -> z -> bool -> nat -> nat -> str -> fstate -> fstate res **)
+
+let rec scan_buf fuel d trimCR id off data st =
+  match fuel with
+  | O -> Err OutOfFuel
+  | S fuel0 ->
+    (match data with
+     | [] -> Ok st
+     | _ :: _ ->
+       (match index_byte0 data d with
+        | Some i ->
+          bind
+            (if (&&) trimCR (Nat.leb (S (S O)) (S i))
+             then bind (get data (sub i (S O))) (fun c -> Ok
+                    (if Z.eqb c cR then sub i (S O) else i))
+             else Ok i) (fun n ->
+            bind (emit0 st { sl_buf = id; sl_off = off; sl_len = n })
+              (fun st' ->
+              scan_buf fuel0 d trimCR id (add (S i) off) (skipn (S i) data)
+                st'))
+        | None ->
+          Ok { f_mem = st.f_mem; f_left = (app st.f_left data); f_items =
+            st.f_items }))
+
+(** val read_retry :
+    nat -> nat -> nat -> str -> nat list -> str * nat list **)
+
+let rec read_retry tries slablen bufsz rest cuts =
+  match tries with
+  | O -> ([], cuts)
+  | S t0 ->
+    (match rest with
+     | [] -> ([], cuts)
+     | _ :: _ ->
+       (match cuts with
+        | [] ->
+          let n = Nat.min slablen bufsz in
+          let cuts' = [] in
+          (match firstn n rest with
+           | [] -> read_retry t0 slablen bufsz rest cuts'
+           | z0 :: l -> ((z0 :: l), cuts'))
+        | c :: r ->
+          let n = Nat.min (Nat.min c slablen) bufsz in
+          (match firstn n rest with
+           | [] -> read_retry t0 slablen bufsz rest r
+           | z0 :: l -> ((z0 :: l), r))))
+
+(** val read_tries : nat **)
+
+let read_tries =
+  S (S (S (S (S (S (S (S (S (S (S (S (S (S (S (S (S (S (S (S (S (S (S (S (S
+    (S (S (S (S (S (S (S (S (S (S (S (S (S (S (S (S (S (S (S (S (S (S (S (S
+    (S (S (S (S (S (S (S (S (S (S (S (S (S (S (S (S (S (S (S (S (S (S (S (S
+    (S (S (S (S (S (S (S (S (S (S (S (S (S (S (S (S (S (S (S (S (S (S (S (S
+    (S (S (S
+    O)))))))))))))))))))))))))))))))))))))))))))))))))))))))))))))))))))))))))))))))))))))))))))))))))))
+
+(** val feed_loop :
+    nat -> nat -> nat -> z -> bool -> str -> nat list -> slice -> fstate ->
+    fstate res **)
+
+let rec feed_loop fuel bufsz slabsz d trimCR rest cuts slab st =
+  match fuel with
+  | O -> Err OutOfFuel
+  | S fuel0 ->
+    let (chunk0, cuts') = read_retry read_tries slab.sl_len bufsz rest cuts in
+    (match chunk0 with
+     | [] -> Ok st
+     | _ :: _ ->
+       let n = length chunk0 in
+       bind (write_at st.f_mem slab.sl_buf slab.sl_off chunk0) (fun m ->
+         let buf = { sl_buf = slab.sl_buf; sl_off = slab.sl_off; sl_len = n }
+         in
+         let slab1 = { sl_buf = slab.sl_buf; sl_off = (add n slab.sl_off);
+           sl_len = (sub slab.sl_len n) }
+         in
+         bind (deref m buf) (fun data ->
+           bind
+             (scan_buf (S n) d trimCR buf.sl_buf buf.sl_off data { f_mem = m;
+               f_left = st.f_left; f_items = st.f_items }) (fun st1 ->
+             if Nat.eqb slab1.sl_len O
+             then let (m', id) = alloc st1.f_mem (repeat Z0 slabsz) in
+                  let slab2 = { sl_buf = id; sl_off = O; sl_len = slabsz } in
+                  let st2 = { f_mem = m'; f_left = st1.f_left; f_items =
+                    st1.f_items }
+                  in
+                  feed_loop fuel0 bufsz slabsz d trimCR (skipn n rest) cuts'
+                    slab2 st2
+             else feed_loop fuel0 bufsz slabsz d trimCR (skipn n rest) cuts'
+                    slab1 st1))))
+
+(** val feed :
+    nat -> nat -> z -> bool -> str -> nat list -> (mem0 * slice list) res **)
+
+let feed bufsz slabsz d trimCR s cuts =
+  let m0 = (repeat Z0 slabsz) :: [] in
+  bind
+    (feed_loop (S (length s)) bufsz slabsz d trimCR s cuts { sl_buf = O;
+      sl_off = O; sl_len = slabsz } { f_mem = m0; f_left = []; f_items = [] })
+    (fun st ->
+    match st.f_left with
+    | [] -> Ok (st.f_mem, (rev_append st.f_items []))
+    | z0 :: l0 ->
+      let l = z0 :: l0 in
+      let (m', id) = alloc st.f_mem l in
+      Ok (m',
+      (rev_append ({ sl_buf = id; sl_off = O; sl_len =
+        (length l) } :: st.f_items) [])))
+
+(** val deref_all : mem0 -> slice list -> str list res **)
+
+let rec deref_all m = function
+| [] -> Ok []
+| sl :: r ->
+  bind (deref m sl) (fun v -> bind (deref_all m r) (fun vs -> Ok (v :: vs)))
+
+(** val feed_records :
+    nat -> nat -> z -> bool -> str -> nat list -> str list res **)
+
+let feed_records bufsz slabsz d trimCR s cuts =
+  bind (feed bufsz slabsz d trimCR s cuts) (fun r ->
+    deref_all (fst r) (snd r))
+
+type 'a chunk = 'a list
+
+type 'a chunklist = 'a chunk list
+
+(** val is_full : nat -> 'a1 chunk -> bool **)
+
+let is_full chunk_size c =
+  Nat.eqb (length c) chunk_size
+
+(** val last_chunk : 'a1 chunklist -> 'a1 chunk res **)
+
+let last_chunk cs = match cs with
+| [] -> Err OutOfRange
+| _ :: _ -> get cs (sub (length cs) (S O))
+
+(** val count_items : nat -> 'a1 chunklist -> nat res **)
+
+let count_items chunk_size cs = match cs with
+| [] -> Ok O
+| c0 :: l ->
+  (match l with
+   | [] -> Ok (length c0)
+   | _ :: _ ->
+     bind (last_chunk cs) (fun l0 -> Ok
+       (add (add (length c0) (mul chunk_size (sub (length cs) (S (S O)))))
+         (length l0))))
+
+(** val push : nat -> 'a1 chunklist -> bool -> 'a1 -> 'a1 chunklist res **)
+
+let push chunk_size cs accept x =
+  bind
+    (match cs with
+     | [] -> Ok ([] :: [])
+     | _ :: _ ->
+       bind (last_chunk cs) (fun l -> Ok
+         (if is_full chunk_size l then app cs ([] :: []) else cs)))
+    (fun cs1 ->
+    bind (last_chunk cs1) (fun l ->
+      if accept
+      then if Nat.ltb (length l) chunk_size
+           then set_nth cs1 (sub (length cs1) (S O)) (app l (x :: []))
+           else Err OutOfRange
+      else Ok cs1))
+
+(** val num_chunks : z -> 'a1 chunk list -> nat **)
+
+let rec num_chunks left = function
+| [] -> O
+| c :: r ->
+  if Z.ltb Z0 left
+  then S (num_chunks (Z.sub left (Z.of_nat (length c))) r)
+  else O
+
+(** val trim_loop : z -> 'a1 chunk list -> 'a1 chunk list **)
+
+let rec trim_loop left = function
+| [] -> []
+| c :: r ->
+  if Z.ltb left (Z.of_nat (length c))
+  then (skipn (sub (length c) (Z.to_nat left)) c) :: r
+  else c :: (trim_loop (Z.sub left (Z.of_nat (length c))) r)
+
+(** val snapshot :
+    nat -> nat -> 'a1 chunklist -> ((('a1 chunklist * 'a1
+    chunklist) * nat) * bool) res **)
+
+let snapshot chunk_size tail cs =
+  bind (count_items chunk_size cs) (fun cnt ->
+    let (cs', changed) =
+      if (&&) (Nat.ltb O tail) (Nat.ltb tail cnt)
+      then let n = num_chunks (Z.of_nat tail) (rev cs) in
+           let min_index = sub (length cs) n in
+           let ret = skipn min_index cs in
+           ((rev (trim_loop (Z.of_nat tail) (rev ret))), true)
+      else (cs, false)
+    in
+    bind (count_items chunk_size cs') (fun c -> Ok (((cs', cs'), c), changed)))
+
+type 'a clop =
+| Push of bool * 'a
+| Snapshot of nat
+| Clear
+
+type 'a clobs = ('a chunklist * nat) * bool
+
+(** val run_ops :
+    nat -> 'a1 chunklist -> 'a1 clop list -> ('a1 chunklist * 'a1 clobs list)
+    res **)
+
+let rec run_ops chunk_size cs = function
+| [] -> Ok (cs, [])
+| c :: r ->
+  (match c with
+   | Push (a, x) ->
+     bind (push chunk_size cs a x) (fun cs' -> run_ops chunk_size cs' r)
+   | Snapshot t0 ->
+     bind (snapshot chunk_size t0 cs) (fun s ->
+       let (p, ch) = s in
+       let (p0, cnt) = p in
+       let (cs', ret) = p0 in
+       bind (run_ops chunk_size cs' r) (fun y -> Ok ((fst y), (((ret, cnt),
+         ch) :: (snd y)))))
+   | Clear -> run_ops chunk_size [] r)
+
+type bstate = { b_header : str list; b_index : nat }
+
+(** val build : nat -> bstate -> str -> bstate * item0 option **)
+
+let build hl st data =
+  if Nat.ltb (length st.b_header) hl
+  then ({ b_header = (app st.b_header (data :: [])); b_index = st.b_index },
+         None)
+  else ({ b_header = st.b_header; b_index = (S st.b_index) }, (Some
+         (st.b_index, data)))
+
+(** val ingest :
+    nat -> nat -> bstate -> item0 chunklist -> str list -> (bstate * item0
+    chunklist) res **)
+
+let rec ingest chunk_size hl st cs = function
+| [] -> Ok (st, cs)
+| r :: t0 ->
+  let (st', it) = build hl st r in
+  bind
+    (match it with
+     | Some x -> push chunk_size cs true x
+     | None -> push chunk_size cs false (O, r)) (fun cs' ->
+    ingest chunk_size hl st' cs' t0)
+
+(** val pipeline :
+    nat -> nat -> nat -> bool -> nat -> nat -> str -> nat list -> (str
+    list * item0 list) res **)
+
+let pipeline bufsz slabsz chunk_size read0 hl tail s cuts =
+  bind (feed_records bufsz slabsz (delim_of read0) false s cuts) (fun recs ->
+    bind (ingest chunk_size hl { b_header = []; b_index = O } [] recs)
+      (fun bc ->
+      bind (snapshot chunk_size tail (snd bc)) (fun sn ->
+        let (p, _) = sn in
+        let (p0, _) = p in
+        let (_, ret) = p0 in Ok ((fst bc).b_header, (concat ret)))))
+
+(** val as_nats : val0 -> nat list **)
+
+let as_nats v =
+  map as_nat (as_list v)
+
+(** val vitem : item0 -> val0 **)
+
+let vitem it =
+  VL ((vnat (fst it)) :: ((vstr (snd it)) :: []))
+
+(** val vres_strs : str list res -> val0 **)
+
+let vres_strs = function
+| Ok l -> vstrs l
+| Err _ -> verr
+
+(** val d_feed : val0 -> val0 **)
+
+let d_feed a =
+  vres_strs
+    (feed_records (as_nat (arg a O)) (as_nat (arg a (S O)))
+      (delim_of (as_bool (arg a (S (S O))))) (as_bool (arg a (S (S (S O)))))
+      (as_str (arg a (S (S (S (S O))))))
+      (as_nats (arg a (S (S (S (S (S O))))))))
+
+(** val d_split : val0 -> val0 **)
+
+let d_split a =
+  vstrs (split_records (delim_of (as_bool (arg a O))) (as_str (arg a (S O))))
+
+(** val as_clop : val0 -> z clop **)
+
+let as_clop v =
+  let t0 = as_int (arg v O) in
+  if Z.eqb t0 Z0
+  then Push ((as_bool (arg v (S O))), (as_int (arg v (S (S O)))))
+  else if Z.eqb t0 (Zpos XH) then Snapshot (as_nat (arg v (S O))) else Clear
+
+(** val vchunks : z chunklist -> val0 **)
+
+let vchunks cs =
+  VL (map (fun c -> VL (map (fun x -> VI x) c)) cs)
+
+(** val d_clops : val0 -> val0 **)
+
+let d_clops a =
+  match run_ops (as_nat (arg a O)) [] (map as_clop (as_list (arg a (S O)))) with
+  | Ok a0 ->
+    let (cs, obs) = a0 in
+    VL ((vchunks cs) :: ((VL
+    (map (fun o ->
+      let (p, ch) = o in
+      let (ret, cnt) = p in
+      VL ((vchunks ret) :: ((vnat cnt) :: ((vbool ch) :: [])))) obs)) :: []))
+  | Err _ -> verr
+
+(** val d_pipeline : val0 -> val0 **)
+
+let d_pipeline a =
+  match pipeline (as_nat (arg a O)) (as_nat (arg a (S O)))
+          (as_nat (arg a (S (S O)))) (as_bool (arg a (S (S (S O)))))
+          (as_nat (arg a (S (S (S (S O))))))
+          (as_nat (arg a (S (S (S (S (S O)))))))
+          (as_str (arg a (S (S (S (S (S (S O))))))))
+          (as_nats (arg a (S (S (S (S (S (S (S O))))))))) with
+  | Ok a0 ->
+    let (h, its) = a0 in VL ((vstrs h) :: ((VL (map vitem its)) :: []))
+  | Err _ -> verr
+
+(** val d_searchable : val0 -> val0 **)
+
+let d_searchable a =
+  let read0 = as_bool (arg a O) in
+  let hl = as_nat (arg a (S O)) in
+  let s = as_str (arg a (S (S (S O)))) in
+  VL ((vstrs (header_of hl (split_records (delim_of read0) s))) :: ((VL
+  (map vitem (searchable read0 hl (as_nat (arg a (S (S O)))) s))) :: []))
+
+(** val d_keep_tail : val0 -> val0 **)
+
+let d_keep_tail a =
+  VL
+    (map (fun x -> VI x)
+      (keep_tail (as_nat (arg a O)) (map as_int (as_list (arg a (S O))))))
+
+(** val dispatch_record : z -> val0 -> val0 option **)
+
+let dispatch_record op a =
+  if Z.eqb op (Zpos (XI (XO (XO (XI (XI (XO (XI (XO (XO XH))))))))))
+  then Some (d_feed a)
+  else if Z.eqb op (Zpos (XO (XI (XO (XI (XI (XO (XI (XO (XO XH))))))))))
+       then Some (d_split a)
+       else if Z.eqb op (Zpos (XI (XI (XO (XI (XI (XO (XI (XO (XO XH))))))))))
+            then Some (d_clops a)
+            else if Z.eqb op (Zpos (XO (XO (XI (XI (XI (XO (XI (XO (XO
+                      XH))))))))))
+                 then Some (d_pipeline a)
+                 else if Z.eqb op (Zpos (XI (XO (XI (XI (XI (XO (XI (XO (XO
+                           XH))))))))))
+                      then Some (d_searchable a)
+                      else if Z.eqb op (Zpos (XO (XI (XI (XI (XI (XO (XI (XO
+                                (XO XH))))))))))
+                           then Some (d_keep_tail a)
+                           else None
 
 (** val is_blank : z -> bool **)
 
@@ -14564,9 +16508,9 @@ let is_space0 c =
     (Z.eqb c (Zpos (XO (XO (XO (XO (XO (XO (XO (XO (XO (XO (XO (XO (XI
       XH)))))))))))))))
 
-(** val trim_right : (z -> bool) -> str -> str **)
+(** val trim_right0 : (z -> bool) -> str -> str **)
 
-let trim_right p s =
+let trim_right0 p s =
   rev (drop_while p (rev s))
 
 (** val inside_selection : fexpr -> nat -> str list -> nat -> nat -> bool **)
@@ -14589,9 +16533,9 @@ let is_awk = function
 | DAwk -> true
 | _ -> false
 
-(** val slice : str -> nat -> nat -> str res **)
+(** val slice0 : str -> nat -> nat -> str res **)
 
-let slice s b e =
+let slice0 s b e =
   if (&&) (Nat.leb b e) (Nat.leb e (length s))
   then Ok (firstn (sub e b) (skipn b s))
   else Err OutOfRange
@@ -14642,11 +16586,11 @@ let awk_tokenizer input =
 let rec regex_tokens text begin0 = function
 | [] ->
   if Nat.ltb begin0 (length text)
-  then bind (slice text begin0 (length text)) (fun t0 -> Ok (t0 :: []))
+  then bind (slice0 text begin0 (length text)) (fun t0 -> Ok (t0 :: []))
   else Ok []
 | p :: r ->
   let (_, e) = p in
-  bind (slice text begin0 e) (fun t0 ->
+  bind (slice0 text begin0 e) (fun t0 ->
     bind (regex_tokens text e r) (fun rest -> Ok (t0 :: rest)))
 
 (** val tokenize0 : str -> delimiter -> token list res **)
@@ -14724,18 +16668,18 @@ let iNT_MIN =
     (XO (XO (XO (XO (XO (XO (XO (XO (XO (XO
     XH)))))))))))))))))))))))))))))))))))))))))))))))))))))))))))))))
 
-(** val iNT_MAX : z **)
+(** val iNT_MAX0 : z **)
 
-let iNT_MAX =
+let iNT_MAX0 =
   Zpos (XI (XI (XI (XI (XI (XI (XI (XI (XI (XI (XI (XI (XI (XI (XI (XI (XI
     (XI (XI (XI (XI (XI (XI (XI (XI (XI (XI (XI (XI (XI (XI (XI (XI (XI (XI
     (XI (XI (XI (XI (XI (XI (XI (XI (XI (XI (XI (XI (XI (XI (XI (XI (XI (XI
     (XI (XI (XI (XI (XI (XI (XI (XI (XI
     XH))))))))))))))))))))))))))))))))))))))))))))))))))))))))))))))
 
-(** val atoi1 : str -> z option **)
+(** val atoi2 : str -> z option **)
 
-let atoi1 s = match s with
+let atoi2 s = match s with
 | [] ->
   let neg = false in
   (match s with
@@ -14743,7 +16687,7 @@ let atoi1 s = match s with
    | _ :: _ ->
      if forallb is_digit1 s
      then let v = if neg then Z.opp (digits_value s) else digits_value s in
-          if (&&) (Z.leb iNT_MIN v) (Z.leb v iNT_MAX) then Some v else None
+          if (&&) (Z.leb iNT_MIN v) (Z.leb v iNT_MAX0) then Some v else None
      else None)
 | c :: r ->
   if Z.eqb c (Zpos (XI (XO (XI (XI (XO XH))))))
@@ -14754,7 +16698,7 @@ let atoi1 s = match s with
           if forallb is_digit1 r
           then let v = if neg then Z.opp (digits_value r) else digits_value r
                in
-               if (&&) (Z.leb iNT_MIN v) (Z.leb v iNT_MAX)
+               if (&&) (Z.leb iNT_MIN v) (Z.leb v iNT_MAX0)
                then Some v
                else None
           else None)
@@ -14767,7 +16711,7 @@ let atoi1 s = match s with
                then let v =
                       if neg then Z.opp (digits_value r) else digits_value r
                     in
-                    if (&&) (Z.leb iNT_MIN v) (Z.leb v iNT_MAX)
+                    if (&&) (Z.leb iNT_MIN v) (Z.leb v iNT_MAX0)
                     then Some v
                     else None
                else None)
@@ -14779,7 +16723,7 @@ let atoi1 s = match s with
                then let v =
                       if neg then Z.opp (digits_value s) else digits_value s
                     in
-                    if (&&) (Z.leb iNT_MIN v) (Z.leb v iNT_MAX)
+                    if (&&) (Z.leb iNT_MIN v) (Z.leb v iNT_MAX0)
                     then Some v
                     else None
                else None)
@@ -14806,11 +16750,11 @@ let parse_range1 s =
   if str_eqb s dD
   then Some (new_range1 Z0 Z0)
   else if has_prefix2 dD s
-       then (match atoi1 (skipn (S (S O)) s) with
+       then (match atoi2 (skipn (S (S O)) s) with
              | Some e -> if Z.eqb e Z0 then None else Some (new_range1 Z0 e)
              | None -> None)
        else if has_suffix2 dD s
-            then (match atoi1 (firstn (sub (length s) (S (S O))) s) with
+            then (match atoi2 (firstn (sub (length s) (S (S O))) s) with
                   | Some b ->
                     if Z.eqb b Z0 then None else Some (new_range1 b Z0)
                   | None -> None)
@@ -14823,9 +16767,9 @@ let parse_range1 s =
                           | n1 :: l0 ->
                             (match l0 with
                              | [] ->
-                               (match atoi1 n0 with
+                               (match atoi2 n0 with
                                 | Some b ->
-                                  (match atoi1 n1 with
+                                  (match atoi2 n1 with
                                    | Some e ->
                                      if (||) ((||) (Z.eqb b Z0) (Z.eqb e Z0))
                                           ((&&) (Z.ltb b Z0) (Z.ltb Z0 e))
@@ -14834,7 +16778,7 @@ let parse_range1 s =
                                    | None -> None)
                                 | None -> None)
                              | _ :: _ -> None)))
-                 else (match atoi1 s with
+                 else (match atoi2 s with
                        | Some n ->
                          if Z.eqb n Z0 then None else Some (new_range1 n n)
                        | None -> None)
@@ -14943,8 +16887,9 @@ let strip_last_delimiter s d =
        (match rev (rx s) with
         | [] -> Ok s
         | p :: _ ->
-          let (b, e) = p in if Nat.eqb e (length s) then slice s O b else Ok s))
-    (fun s1 -> Ok (trim_right is_space0 s1))
+          let (b, e) = p in
+          if Nat.eqb e (length s) then slice0 s O b else Ok s)) (fun s1 -> Ok
+    (trim_right0 is_space0 s1))
 
 (** val map_last : ('a1 -> 'a1 res) -> 'a1 list -> 'a1 list res **)
 
@@ -15440,29 +17385,29 @@ let skipped ig p b =
 let pruned o ig p b =
   (||) ((&&) (negb o.o_hidden) (hidden_name b)) (skipped ig p b)
 
-(** val emit0 : bool -> str -> str list **)
+(** val emit1 : bool -> str -> str list **)
 
-let emit0 b p =
+let emit1 b p =
   if b then p :: [] else []
 
 (** val list_entry : wopts -> str list -> str -> entry -> str list **)
 
 let rec list_entry o ig d = function
-| File nm -> emit0 o.o_file (child d nm)
+| File nm -> emit1 o.o_file (child d nm)
 | Dir (nm, ch) ->
   let p = child d nm in
   if pruned o ig p nm
   then []
-  else app (emit0 o.o_dir (with_sep p)) (flat_map (list_entry o ig p) ch)
-| SymFile nm -> emit0 o.o_file (child d nm)
+  else app (emit1 o.o_dir (with_sep p)) (flat_map (list_entry o ig p) ch)
+| SymFile nm -> emit1 o.o_file (child d nm)
 | SymDir (nm, tg) ->
   let p = child d nm in
   if o.o_follow
   then if pruned o ig p nm
        then []
-       else app (emit0 o.o_file (with_sep p))
+       else app (emit1 o.o_file (with_sep p))
               (flat_map (list_entry o ig p) tg)
-  else emit0 o.o_file p
+  else emit1 o.o_file p
 
 (** val listing : wopts -> str list -> str -> entry list -> str list **)
 
@@ -15472,7 +17417,7 @@ let listing o ig root ch =
   then flat_map (list_entry o ig d) ch
   else if pruned o ig d (base_name d)
        then []
-       else app (emit0 o.o_dir (with_sep d)) (flat_map (list_entry o ig d) ch)
+       else app (emit1 o.o_dir (with_sep d)) (flat_map (list_entry o ig d) ch)
 
 (** val listing_roots :
     wopts -> str list -> (str * entry list) list -> str list **)
@@ -15552,30 +17497,30 @@ let join_paths dir base =
 let pATH_SEPARATOR =
   sLASH
 
-(** val trim_loop : str -> str **)
+(** val trim_loop0 : str -> str **)
 
-let rec trim_loop s = match s with
+let rec trim_loop0 s = match s with
 | [] -> s
 | a :: l ->
   (match l with
    | [] -> s
    | b :: r ->
      if (&&) (Z.eqb a dOT1) ((||) (Z.eqb b sLASH) (Z.eqb b pATH_SEPARATOR))
-     then trim_loop r
+     then trim_loop0 r
      else s)
 
 (** val trim_path : str -> str **)
 
 let trim_path path =
-  match trim_loop path with
+  match trim_loop0 path with
   | [] -> dOT1 :: []
   | z0 :: l -> z0 :: l
 
-(** val take_while0 : ('a1 -> bool) -> 'a1 list -> 'a1 list **)
+(** val take_while1 : ('a1 -> bool) -> 'a1 list -> 'a1 list **)
 
-let rec take_while0 p = function
+let rec take_while1 p = function
 | [] -> []
-| x :: t0 -> if p x then x :: (take_while0 p t0) else []
+| x :: t0 -> if p x then x :: (take_while1 p t0) else []
 
 (** val go_base : str -> str **)
 
@@ -15583,7 +17528,7 @@ let go_base path = match path with
 | [] -> dOT1 :: []
 | _ :: _ ->
   let p1 = rev (drop_while is_sep0 (rev path)) in
-  let p3 = rev (take_while0 (fun c -> negb (is_sep0 c)) (rev p1)) in
+  let p3 = rev (take_while1 (fun c -> negb (is_sep0 c)) (rev p1)) in
   (match p3 with
    | [] -> sep
    | _ :: _ -> p3)
@@ -15601,9 +17546,9 @@ let rec split_ignores = function
        else ((b, (ig :: f)), ((app sep ig) :: x))
   else (((ig :: b), f), x)
 
-(** val push : bool -> str -> str list **)
+(** val push0 : bool -> str -> str list **)
 
-let push b p =
+let push0 b p =
   if b then p :: [] else []
 
 (** val walk_fn :
@@ -15642,8 +17587,8 @@ let walk_fn o ign path0 k =
                                     then path
                                     else app path sep
                                   in
-                                  Ok ((push wanted path1), Continue))
-       else Ok ((push wanted path), Continue)
+                                  Ok ((push0 wanted path1), Continue))
+       else Ok ((push0 wanted path), Continue)
 
 type callback = str -> kind0 -> (str list * action0) res
 
@@ -15830,18 +17775,24 @@ let dispatch op a =
        (match dispatch_history op a with
         | Some v -> v
         | None ->
-          (match dispatch_option op a with
+          (match dispatch_http op a with
            | Some v -> v
            | None ->
-             (match dispatch_pattern op a with
+             (match dispatch_option op a with
               | Some v -> v
               | None ->
-                (match dispatch_placeholder op a with
+                (match dispatch_pattern op a with
                  | Some v -> v
                  | None ->
-                   (match dispatch_token op a with
+                   (match dispatch_placeholder op a with
                     | Some v -> v
                     | None ->
-                      (match dispatch_walk op a with
+                      (match dispatch_record op a with
                        | Some v -> v
-                       | None -> verr)))))))
+                       | None ->
+                         (match dispatch_token op a with
+                          | Some v -> v
+                          | None ->
+                            (match dispatch_walk op a with
+                             | Some v -> v
+                             | None -> verr)))))))))
